@@ -1,1485 +1,22 @@
-(* C02 on the second-generation Session model: no PUBLISH is written again after PUBREC in a persistent
-   session; PUBREL is handed to the connection in the operation of every accepting CONNACK (and written
-   there unless the transport refuses writes); DUP: a PUBLISH that was written before carries DUP = 1,
-   a message never handed to a connection before carries DUP = 0, QoS 0 never carries DUP - for every
-   protocol-conforming history. *)
-From PahoV Require Import Base.Prelude Codec.Mid Codec.MidProofs Session2.Model Session2.Check
-  Session2.Lemmas Session2.Inv Session2.Statements.
-From Coq Require Import Sorting.Sorted.
-
-(* ---------------------------------------------------------------- sets of tags *)
-Lemma zin_app x l l' : zin x (l ++ l') = zin x l || zin x l'.
-Proof.
-  induction l as [|y l IH]; cbn [zin app]; [reflexivity|]. rewrite IH, orb_assoc. reflexivity.
-Qed.
-
-Lemma zin_zadd x y l : zin x (zadd y l) = (x =? y) || zin x l.
-Proof.
-  unfold zadd. destruct (zin y l) eqn:E.
-  - destruct (x =? y) eqn:E2; [|reflexivity]. assert (x = y) by lia. subst. rewrite E. reflexivity.
-  - rewrite zin_app. cbn [zin]. rewrite orb_false_r. apply orb_comm.
-Qed.
-
-Lemma zin_zrem x y l : zin x (zrem y l) = negb (x =? y) && zin x l.
-Proof.
-  induction l as [|z l IH]; cbn [zrem zin]; [rewrite andb_false_r; reflexivity|].
-  destruct (y =? z) eqn:E.
-  - rewrite IH. destruct (x =? y) eqn:E1; destruct (x =? z) eqn:E2; cbn [negb andb orb]; try reflexivity.
-    exfalso; lia.
-  - cbn [zin]. rewrite IH. destruct (x =? y) eqn:E1; destruct (x =? z) eqn:E2; cbn [negb andb orb]; try reflexivity.
-    exfalso; lia.
-Qed.
-
-Lemma zin_In x l : zin x l = true <-> In x l.
-Proof.
-  induction l as [|y l IH]; cbn [zin In]; [split; [discriminate|intros []]|].
-  rewrite orb_true_iff, IH. split; (intros [H|H]; [left; lia | right; exact H]).
-Qed.
-
-Lemma zin_notin x l : ~ In x l -> zin x l = false.
-Proof. intros H. destruct (zin x l) eqn:E; [|reflexivity]. exfalso. apply H. apply zin_In. exact E. Qed.
-
-(* ---------------------------------------------------------------- the live list mirrors out *)
-Definition lm (m : omsg) : lmsg := mkL (o_tag m) (o_mid m) (o_qos m).
-
-Lemma lfind_mid_map mid l : lfind_mid mid (map lm l) = option_map lm (find_mid mid l).
-Proof.
-  induction l as [|x l IH]; cbn [map lfind_mid find_mid]; [reflexivity|].
-  change (l_mid (lm x)) with (o_mid x). destruct (o_mid x =? mid); [reflexivity | exact IH].
-Qed.
-
-Lemma lrem_tag_app tag a b : lrem_tag tag (a ++ b) = lrem_tag tag a ++ lrem_tag tag b.
-Proof.
-  induction a as [|x a IH]; cbn [app lrem_tag]; [reflexivity|].
-  destruct (l_tag x =? tag); [exact IH | cbn [app]; f_equal; exact IH].
-Qed.
-
-Lemma lrem_tag_notin tag l : ~ In tag (tags l) -> lrem_tag tag (map lm l) = map lm l.
-Proof.
-  induction l as [|x l IH]; cbn [map lrem_tag tags]; [reflexivity|]. intros H.
-  change (l_tag (lm x)) with (o_tag x). destruct (o_tag x =? tag) eqn:E.
-  - exfalso. apply H. left. lia.
-  - f_equal. apply IH. intros H1. apply H. right. exact H1.
-Qed.
-
-Lemma lrem_tag_split l1 m l2 : NoDup (tags (l1 ++ m :: l2)) ->
-  lrem_tag (o_tag m) (map lm (l1 ++ m :: l2)) = map lm (l1 ++ l2).
-Proof.
-  rewrite tags_app. cbn [tags map]. intros H. apply NoDup_remove_2 in H.
-  rewrite !map_app, lrem_tag_app. cbn [map lrem_tag]. change (l_tag (lm m)) with (o_tag m).
-  rewrite Z.eqb_refl. rewrite !lrem_tag_notin; [reflexivity| |].
-  - intros H1. apply H. apply in_or_app. right. exact H1.
-  - intros H1. apply H. apply in_or_app. left. exact H1.
-Qed.
-
-Lemma tag_inj l a b : NoDup (tags l) -> In a l -> In b l -> o_tag a = o_tag b -> a = b.
-Proof.
-  induction l as [|x l IH]; cbn [tags map]; intros Hn Ha Hb E; [destruct Ha|].
-  inversion Hn as [|? ? Hx Hn']; subst.
-  destruct Ha as [->|Ha]; destruct Hb as [->|Hb]; [reflexivity| | |apply IH; assumption].
-  - exfalso. apply Hx. rewrite E. apply (in_map o_tag). exact Hb.
-  - exfalso. apply Hx. rewrite <- E. apply (in_map o_tag). exact Ha.
-Qed.
-
-Lemma SSorted_NoDup (l : list Z) : StronglySorted Z.lt l -> NoDup l.
-Proof.
-  induction 1 as [|a l Hs IH Hf]; constructor; [|assumption].
-  intros Hin. rewrite Forall_forall in Hf. specialize (Hf a Hin). lia.
-Qed.
-
-Lemma NoDup_map_filter {A B} (g : A -> B) (f : A -> bool) l : NoDup (map g l) -> NoDup (map g (filter f l)).
-Proof.
-  induction l as [|x l IH]; cbn [map filter]; intros H; [constructor|].
-  inversion H as [|? ? Hx Hn]; subst. destruct (f x); [|apply IH; exact Hn].
-  cbn [map]. constructor; [|apply IH; exact Hn].
-  intros Hin. apply Hx. apply in_map_iff in Hin as (y & Hy & Hin). apply filter_In in Hin as [Hin _].
-  rewrite <- Hy. apply in_map. exact Hin.
-Qed.
-
-Lemma NoDup_app_l {A} (a b : list A) : NoDup (a ++ b) -> NoDup a.
-Proof.
-  induction a as [|x a IH]; cbn [app]; intros H; [constructor|].
-  inversion H as [|? ? Hx Hn]; subst. constructor; [|apply IH; exact Hn].
-  intros Hin. apply Hx. apply in_or_app. left. exact Hin.
-Qed.
-Lemma NoDup_app_r {A} (a b : list A) : NoDup (a ++ b) -> NoDup b.
-Proof.
-  induction a as [|x a IH]; cbn [app]; intros H; [exact H|].
-  inversion H; subst. apply IH. assumption.
-Qed.
-Lemma NoDup_app_disj {A} (a b : list A) x : NoDup (a ++ b) -> In x a -> In x b -> False.
-Proof.
-  induction a as [|y a IH]; cbn [app]; intros H Ha Hb; [destruct Ha|].
-  inversion H as [|? ? Hy Hn]; subst. destruct Ha as [->|Ha].
-  - apply Hy. apply in_or_app. right. exact Hb.
-  - exact (IH Hn Ha Hb).
-Qed.
-
-Lemma zin_tags t l : zin t (tags l) = true <-> exists m, In m l /\ o_tag m = t.
-Proof.
-  rewrite zin_In. unfold tags. rewrite in_map_iff. split; intros (m & H1 & H2); exists m; tauto.
-Qed.
-
-(* ---------------------------------------------------------------- per-message facts *)
-Definition snt (m : omsg) : bool :=
-  is_wait m || match o_st m with MsResendPubrel => true | _ => false end || o_dup m.
-Definition isrec (m : omsg) : bool :=
-  match o_st m with MsWaitPubcomp | MsResendPubrel => true | _ => false end.
-Definition isresend (m : omsg) : bool :=
-  match o_st m with MsResendPubrel => true | _ => false end.
-Definition isPub (m : omsg) : bool :=
-  match o_st m with MsPublish => true | _ => false end.
-
-Ltac mcrush :=
-  let mid := fresh "mid" in let q := fresh "q" in let st := fresh "st" in
-  let d := fresh "d" in let t := fresh "t" in
-  match goal with m : omsg |- _ => destruct m as [mid q st d t] end;
-  unfold snt, isrec, isresend, isPub, lm, qos_okb, reset1, toQ, cl1, rel1, wait_of, is_queued, is_wait,
-    set_st, set_st_dup in *; cbn in *;
-  destruct (q =? 1) eqn:?; destruct (q =? 2) eqn:?; destruct st; cbn in *;
-  repeat match goal with H : (_ =? _) = _ |- _ => rewrite H in * end; cbn in *;
-  intros; try reflexivity; try discriminate; try lia; try tauto.
-
-Lemma lm_reset1 cl m : lm (reset1 cl m) = lm m.
-Proof. destruct cl; mcrush. Qed.
-Lemma lm_toQ m : lm (toQ m) = lm m.
-Proof. reflexivity. Qed.
-Lemma lm_cl1 m : lm (cl1 m) = lm m.
-Proof. mcrush. Qed.
-Lemma lm_rel1 m : lm (rel1 m) = lm m.
-Proof. reflexivity. Qed.
-
-Lemma snt_reset1 cl m : qos_okb m = true -> snt (reset1 cl m) = snt m.
-Proof. destruct cl; mcrush. Qed.
-Lemma snt_toQ m : o_st m = MsPublish \/ o_st m = MsQueued -> snt (toQ m) = snt m.
-Proof. intros [H|H]; mcrush. Qed.
-Lemma snt_rel1 m : snt (rel1 m) = true.
-Proof. mcrush. Qed.
-Lemma snt_cl1_pub m : isPub m = true -> snt (cl1 m) = true.
-Proof. mcrush. Qed.
-Lemma snt_cl1_other m : isPub m = false -> snt (cl1 m) = snt m.
-Proof. mcrush. Qed.
-Lemma snt_queued m : is_queued m = true -> snt m = o_dup m.
-Proof. mcrush. Qed.
-Lemma snt_pub m : isPub m = true -> snt m = o_dup m.
-Proof. mcrush. Qed.
-Lemma snt_wait m : is_wait m = true -> snt m = true.
-Proof. mcrush. Qed.
-Lemma qos_pos m : qos_okb m = true -> 0 < o_qos m.
-Proof. mcrush. Qed.
-Lemma rec_reset1 m : o_qos m = 2 -> isrec m = true ->
-  isrec (reset1 false m) = true /\ isresend (reset1 false m) = true.
-Proof. mcrush. Qed.
-Lemma rec_cl1 m : isrec m = true -> isrec (cl1 m) = true.
-Proof. mcrush. Qed.
-Lemma cl1_qos m : o_qos (cl1 m) = o_qos m.
-Proof. mcrush. Qed.
-Lemma rec_nq m : isrec m = true -> is_queued m = false.
-Proof. mcrush. Qed.
-Lemma rec_npub m : isrec m = true -> isPub m = false.
-Proof. mcrush. Qed.
-Lemma rec_nPQ m : isrec m = true -> ~ (o_st m = MsPublish \/ o_st m = MsQueued).
-Proof. intros H [E|E]; mcrush. Qed.
-Lemma queued_npub m : is_queued m = true -> isPub m = false.
-Proof. mcrush. Qed.
-
-Lemma zin_zrem_notin x l : zin x l = false -> zrem x l = l.
-Proof.
-  induction l as [|y l IH]; cbn [zin zrem]; [reflexivity|]. intros H. apply orb_false_iff in H as [H1 H2].
-  rewrite H1. f_equal. apply IH. exact H2.
-Qed.
-
-(* ---------------------------------------------------------------- packets, as the checker sees them *)
-Definition pubtag (x : qpkt) : list Z := match q_pkt x with PPublish _ _ _ t => [t] | _ => [] end.
-Definition pubtags (q : list qpkt) : list Z := flat_map pubtag q.
-Lemma pubtags_app a b : pubtags (a ++ b) = pubtags a ++ pubtags b.
-Proof. unfold pubtags. apply flat_map_app. Qed.
-
-Definition noq0 (x : qpkt) : Prop :=
-  match q_pkt x with PPublish _ qs _ _ => (qs =? 0) = false | _ => True end.
-Lemma noq0_written x : noq0 x -> written_evs x = [].
-Proof. unfold noq0, written_evs. destruct (q_pkt x); try reflexivity. intros ->. reflexivity. Qed.
-
-(* the events of one hand-over on a queue that is empty whenever the transport accepts writes *)
-Definition ev1 (can : bool) (cn : Z) (x : qpkt) : list event :=
-  Handed cn (q_pkt x) :: if can then [Tx cn (q_pkt x)] else [].
-
-Lemma hand_all_evs cn can q H : (can = true -> q = []) -> Forall noq0 H ->
-  snd (hand_all cn can q H) = flat_map (ev1 can cn) H.
-Proof.
-  intros Hq HH. destruct can.
-  - rewrite (Hq eq_refl), hand_all_can. cbn [snd]. induction HH as [|x H Hx _ IH]; [reflexivity|].
-    cbn [flat_map]. rewrite IH. cbn [flush_evs ev1]. rewrite (noq0_written x Hx). reflexivity.
-  - rewrite hand_all_blocked. cbn [snd]. clear. induction H as [|x H IH]; [reflexivity|].
-    cbn [map flat_map ev1 app]. rewrite IH. reflexivity.
-Qed.
-
-(* ---------------------------------------------------------------- checker folds *)
-Section Folds.
-Variable p : bool.      (* persistent session *)
-
-Definition same_but (k k' : k02) : Prop :=
-  k2_ok k' = true /\ k2_live k' = k2_live k /\ k2_rec k' = k2_rec k /\ k2_blk k' = k2_blk k.
-
-(* what a packet about to be handed over has to satisfy *)
-Definition hc (k : k02) (x : qpkt) : Prop :=
-  match q_pkt x with
-  | PPublish _ qs d t =>
-      (p = true -> zin t (k2_rec k) = false) /\ d = zin t (k2_h1 k) /\
-      (zin t (k2_sent k) = true -> d = true) /\ 0 < qs
-  | _ => True
-  end.
-
-Lemma hand1 can cn k x : k2_ok k = true -> hc k x ->
-  let k' := fold_left (k02_ev p) (ev1 can cn x) k in
-  same_but k k' /\
-  (forall t, zin t (k2_h1 k') = zin t (k2_h1 k) || zin t (pubtag x)) /\
-  (forall t, zin t (k2_h2 k') = zin t (k2_h2 k) || (zin t (pubtag x) && zin t (k2_h1 k))) /\
-  (forall t, zin t (k2_sent k') = zin t (k2_sent k) || (can && zin t (pubtag x))).
-Proof.
-  intros Hok Hx. unfold hc, pubtag, ev1 in *.
-  destruct (q_pkt x) as [|m qs d t0|m t0|m|m|m].
-  1,3,4,5,6: destruct can; cbn [fold_left k02_ev zin]; (split; [repeat split; assumption|]);
-    (split; [intros; rewrite orb_false_r; reflexivity|]); (split; intros; rewrite ?andb_false_r, ?orb_false_r; reflexivity).
-  destruct Hx as (Hr & Hd & Hs & Hq).
-  assert (Hqs : (qs >? 0) = true) by lia.
-  set (k1 := k02_ev p k (Handed cn (PPublish m qs d t0))).
-  assert (Hok1 : k2_ok k1 = true).
-  { unfold k1. cbn [k02_ev k2_ok]. rewrite Hok, Hd, Hqs. cbn [andb orb]. destruct (zin t0 (k2_h1 k)); reflexivity. }
-  assert (H1 : forall t, zin t (k2_h1 k1) = zin t (k2_h1 k) || zin t [t0]).
-  { intros t. unfold k1. cbn [k02_ev k2_h1]. rewrite zin_zadd. cbn [zin]. rewrite orb_false_r. apply orb_comm. }
-  assert (H2 : forall t, zin t (k2_h2 k1) = zin t (k2_h2 k) || (zin t [t0] && zin t (k2_h1 k))).
-  { intros t. unfold k1. cbn [k02_ev k2_h2 zin]. rewrite orb_false_r. destruct (zin t0 (k2_h1 k)) eqn:E.
-    - rewrite zin_zadd. destruct (t =? t0) eqn:Et; cbn [andb orb].
-      + assert (t = t0) by lia. subst. rewrite E. rewrite orb_true_r. reflexivity.
-      + rewrite orb_false_r. reflexivity.
-    - destruct (t =? t0) eqn:Et; cbn [andb]; [|rewrite orb_false_r; reflexivity].
-      assert (t = t0) by lia. subst. rewrite E, orb_false_r. reflexivity. }
-  assert (Hd2 : d = true -> zin t0 (k2_h2 k1) = true).
-  { intros ->. rewrite H2. cbn [zin]. rewrite Z.eqb_refl, <- Hd. cbn. apply orb_true_r. }
-  destruct can; cbn [fold_left]; fold k1.
-  - set (k2 := k02_ev p k1 (Tx cn (PPublish m qs d t0))).
-    assert (Hok2 : k2_ok k2 = true).
-    { unfold k2. cbn [k02_ev k2_ok]. rewrite Hok1, Hqs. cbn [andb orb].
-      change (k2_rec k1) with (k2_rec k). change (k2_sent k1) with (k2_sent k).
-      assert (E1 : negb p || negb (zin t0 (k2_rec k)) = true) by (destruct p; [rewrite (Hr eq_refl)|]; reflexivity).
-      assert (E2 : negb (zin t0 (k2_sent k)) || d = true) by (destruct (zin t0 (k2_sent k)); [rewrite (Hs eq_refl)|]; reflexivity).
-      assert (E3 : zin t0 (k2_h2 k1) || negb d = true) by (destruct d; [rewrite (Hd2 eq_refl)|rewrite orb_true_r]; reflexivity).
-      rewrite E1, E2, E3. reflexivity. }
-    split; [repeat split; [exact Hok2 | reflexivity..]|]. split; [exact H1|]. split; [exact H2|].
-    intros t. unfold k2. cbn [k02_ev k2_sent]. change (k2_sent k1) with (k2_sent k).
-    rewrite zin_zadd. cbn [zin andb]. rewrite orb_false_r. apply orb_comm.
-  - split; [repeat split; [exact Hok1 | reflexivity..]|]. split; [exact H1|]. split; [exact H2|].
-    intros t. cbn [andb]. rewrite orb_false_r. reflexivity.
-Qed.
-
-Lemma hand_fold can cn : forall H k, k2_ok k = true -> NoDup (pubtags H) -> Forall (hc k) H ->
-  let k' := fold_left (k02_ev p) (flat_map (ev1 can cn) H) k in
-  same_but k k' /\
-  (forall t, zin t (k2_h1 k') = zin t (k2_h1 k) || zin t (pubtags H)) /\
-  (forall t, zin t (k2_h2 k') = zin t (k2_h2 k) || (zin t (pubtags H) && zin t (k2_h1 k))) /\
-  (forall t, zin t (k2_sent k') = zin t (k2_sent k) || (can && zin t (pubtags H))).
-Proof.
-  induction H as [|x H IH]; intros k Hok Hnd HH; cbv zeta.
-  - cbn [flat_map fold_left pubtags zin]. split; [repeat split; assumption|].
-    split; [intros; rewrite orb_false_r; reflexivity|]. split; intros; rewrite ?andb_false_r, ?orb_false_r; reflexivity.
-  - inversion HH as [|? ? Hx HH']; subst. cbn [flat_map]. rewrite fold_left_app.
-    unfold pubtags in Hnd. cbn [flat_map] in Hnd. fold (pubtags H) in Hnd.
-    destruct (hand1 can cn k x Hok Hx) as ((Ok1 & L1 & R1 & B1) & A1 & A2 & A3).
-    set (k1 := fold_left (k02_ev p) (ev1 can cn x) k) in *.
-    assert (Hnd' : NoDup (pubtags H)) by (apply NoDup_app_r in Hnd; exact Hnd).
-    assert (Hdisj : forall t, zin t (pubtag x) = true -> zin t (pubtags H) = false).
-    { intros t Ht. apply zin_notin. intros Hin. apply zin_In in Ht. exact (NoDup_app_disj _ _ t Hnd Ht Hin). }
-    assert (HH1 : Forall (hc k1) H).
-    { apply Forall_forall. intros y Hy. pose proof (proj1 (Forall_forall _ _) HH' y Hy) as Hcy.
-      unfold hc in *. destruct (q_pkt y) as [|m qs d t0| | | |] eqn:Ey; try exact I.
-      destruct Hcy as (C1 & C2 & C3 & C4).
-      assert (Hny : zin t0 (pubtag x) = false).
-      { destruct (zin t0 (pubtag x)) eqn:E; [|reflexivity]. pose proof (Hdisj t0 E) as Hf.
-        exfalso. assert (Ht : zin t0 (pubtags H) = true); [|congruence].
-        apply zin_In. unfold pubtags. apply in_flat_map. exists y. split; [exact Hy|].
-        unfold pubtag. rewrite Ey. left. reflexivity. }
-      rewrite R1, A1, A3, Hny, andb_false_r, !orb_false_r. repeat split; assumption. }
-    destruct (IH k1 Ok1 Hnd' HH1) as ((Ok2 & L2 & R2 & B2) & E1 & E2 & E3).
-    split; [repeat split; [exact Ok2 | congruence..]|].
-    unfold pubtags. cbn [flat_map]. fold (pubtags H).
-    split; [|split]; intros t; rewrite ?E1, ?E2, ?E3, ?A1, ?A2, ?A3, zin_app.
-    + rewrite orb_assoc. reflexivity.
-    + pose proof (Hdisj t) as Hd. destruct (zin t (pubtag x)); [rewrite (Hd eq_refl)|];
-        destruct (zin t (k2_h2 k)), (zin t (pubtags H)), (zin t (k2_h1 k)); reflexivity.
-    + destruct can, (zin t (k2_sent k)), (zin t (pubtag x)), (zin t (pubtags H)); reflexivity.
-Qed.
-
-(* what a queued packet has to satisfy when it is written *)
-Definition wc (k : k02) (x : qpkt) : Prop :=
-  match q_pkt x with
-  | PPublish _ qs d t =>
-      (p = true -> zin t (k2_rec k) = false) /\ (zin t (k2_sent k) = true -> d = true) /\
-      (d = true -> zin t (k2_h2 k) = true) /\
-      (qs = 0 -> d = false /\ ~ In t (map l_tag (k2_live k)) /\ zin t (k2_rec k) = false) /\ 0 <= qs
-  | _ => True
-  end.
-
-Lemma lrem_tag_id t l : ~ In t (map l_tag l) -> lrem_tag t l = l.
-Proof.
-  induction l as [|x l IH]; cbn [lrem_tag map In]; [reflexivity|]. intros H.
-  destruct (l_tag x =? t) eqn:E; [exfalso; apply H; left; lia|]. f_equal. apply IH. tauto.
-Qed.
-
-Lemma flush_fold02 cn : forall q k, k2_ok k = true -> NoDup (pubtags q) -> Forall (wc k) q ->
-  let k' := fold_left (k02_ev p) (flush_evs cn q) k in
-  same_but k k' /\ k2_h1 k' = k2_h1 k /\ k2_h2 k' = k2_h2 k /\
-  (forall t, zin t (k2_sent k') = zin t (k2_sent k) || zin t (pubtags q)).
-Proof.
-  induction q as [|x q IH]; intros k Hok Hnd HH; cbv zeta.
-  - cbn [flush_evs fold_left pubtags flat_map zin]. split; [repeat split; assumption|]. split; [reflexivity|].
-    split; [reflexivity|]. intros; rewrite orb_false_r; reflexivity.
-  - inversion HH as [|? ? Hx HH']; subst. cbn [flush_evs]. 
-    change (Tx cn (q_pkt x) :: written_evs x ++ flush_evs cn q) with ((Tx cn (q_pkt x) :: written_evs x) ++ flush_evs cn q).
-    rewrite fold_left_app.
-    unfold pubtags in Hnd. cbn [flat_map] in Hnd. fold (pubtags q) in Hnd.
-    set (k1 := fold_left (k02_ev p) (Tx cn (q_pkt x) :: written_evs x) k).
-    assert (S1 : same_but k k1 /\ k2_h1 k1 = k2_h1 k /\ k2_h2 k1 = k2_h2 k /\
-                 (forall t, zin t (k2_sent k1) = zin t (k2_sent k) || zin t (pubtag x))).
-    { unfold k1, wc, pubtag, written_evs in *. destruct (q_pkt x) as [|m qs d t0|m t0|m|m|m];
-        try (cbn [fold_left k02_ev zin]; split; [repeat split; assumption|]; split; [reflexivity|]; split; [reflexivity|];
-             intros; rewrite orb_false_r; reflexivity).
-      destruct Hx as (C1 & C2 & C3 & C4 & C5).
-      assert (E1 : negb p || negb (zin t0 (k2_rec k)) = true) by (destruct p; [rewrite (C1 eq_refl)|]; reflexivity).
-      assert (E2 : negb (zin t0 (k2_sent k)) || d = true) by (destruct (zin t0 (k2_sent k)); [rewrite (C2 eq_refl)|]; reflexivity).
-      assert (E3 : zin t0 (k2_h2 k) || negb d = true) by (destruct d; [rewrite (C3 eq_refl)|rewrite orb_true_r]; reflexivity).
-      destruct (qs =? 0) eqn:E0.
-      - assert (qs = 0) by lia. destruct (C4 H) as (-> & Hl & Hr). cbn [fold_left k02_ev].
-        cbn [k2_ok k2_live k2_rec k2_sent k2_h1 k2_h2 k2_blk].
-        rewrite (lrem_tag_id _ _ Hl), (zin_zrem_notin _ _ Hr).
-        rewrite Hok, E1, E2, E3. cbn [andb negb orb]. rewrite orb_true_r.
-        split; [repeat split; reflexivity|]. split; [reflexivity|]. split; [reflexivity|].
-        intros t. rewrite zin_zadd. cbn [zin]. rewrite orb_false_r. apply orb_comm.
-      - cbn [fold_left k02_ev k2_ok k2_live k2_rec k2_sent k2_h1 k2_h2 k2_blk].
-        rewrite Hok, E1, E2, E3. replace (qs >? 0) with true by lia.
-        split; [repeat split; reflexivity|]. split; [reflexivity|]. split; [reflexivity|].
-        intros t. rewrite zin_zadd. cbn [zin]. rewrite orb_false_r. apply orb_comm. }
-    destruct S1 as ((Ok1 & L1 & R1 & B1) & G1 & G2 & A3).
-    assert (Hnd' : NoDup (pubtags q)) by (apply NoDup_app_r in Hnd; exact Hnd).
-    assert (HH1 : Forall (wc k1) q).
-    { apply Forall_forall. intros y Hy. pose proof (proj1 (Forall_forall _ _) HH' y Hy) as Hcy.
-      unfold wc in *. destruct (q_pkt y) as [|m qs d t0| | | |] eqn:Ey; try exact I.
-      destruct Hcy as (C1 & C2 & C3 & C4 & C5).
-      assert (Hny : zin t0 (pubtag x) = false).
-      { apply zin_notin. intros Hin. apply (NoDup_app_disj _ _ t0 Hnd Hin). unfold pubtags. apply in_flat_map.
-        exists y. split; [exact Hy|]. unfold pubtag. rewrite Ey. left. reflexivity. }
-      rewrite R1, L1, G2, A3, Hny, orb_false_r. split; [exact C1|]. split; [exact C2|]. split; [exact C3|]. split; [exact C4 | exact C5]. }
-    destruct (IH k1 Ok1 Hnd' HH1) as ((Ok2 & L2 & R2 & B2) & F1 & F2 & E3).
-    split; [repeat split; [exact Ok2 | congruence..]|]. split; [congruence|]. split; [congruence|].
-    intros t. rewrite E3, A3. unfold pubtags. cbn [flat_map]. fold (pubtags q). rewrite zin_app, orb_assoc. reflexivity.
-Qed.
-
-End Folds.
-
-(* ---------------------------------------------------------------- the relational invariant *)
-(* [snt m]: the PUBLISH of m has been handed to some connection (it is, or was, in a wait state) *)
-Definition pk_inv (s : sess) (k : k02) (x : qpkt) : Prop :=
-  match q_pkt x with
-  | PPublish _ qs d t =>
-      (zin t (k2_sent k) = true -> d = true) /\ (d = true -> zin t (k2_h2 k) = true) /\
-      (qs = 0 -> d = false /\ ~ In t (tags (out s)) /\ t < ntag s)
-  | _ => True
-  end.
-
-Record R (c : cfg) (s : sess) (k : k02) : Prop := mkR {
-  r_ok : k2_ok k = true;
-  r_live : k2_live k = map lm (out s);
-  r_h1 : forall m, In m (out s) -> zin (o_tag m) (k2_h1 k) = snt m;
-  r_h1b : forall t, zin t (k2_h1 k) = true -> t < ntag s;
-  r_sh : forall t, zin t (k2_sent k) = true -> t < ntag s;
-  r_pend : forall m, In m (out s) -> isPub m = true \/ is_queued m = true ->
-           zin (o_tag m) (k2_sent k) = true -> o_dup m = true;
-  r_rec : c_clean c <> 1 -> forall t, zin t (k2_rec k) = true ->
-       exists m, In m (out s) /\ o_tag m = t /\ o_qos m = 2 /\ isrec m = true /\
-          (sock s = true -> cack s = false -> isresend m = true);
-  r_recl : forall t, zin t (k2_rec k) = true -> In t (tags (out s));
-  r_first : cack s = true -> first s = false;
-  r_clean : c_clean c = 2 -> first s = true -> k2_rec k = [];
-  r_pk : Forall (pk_inv s k) (outq s);
-  r_nd : NoDup (pubtags (outq s));
-  r_blk : sock s = true -> k2_blk k = blocked s
-}.
-
-Lemma inv_nodup_tags c s : Inv c s -> NoDup (tags (out s)).
-Proof. intros I. apply SSorted_NoDup. apply (inv_sorted _ _ I). Qed.
-
-Lemma inv_tag_lt c s m : Inv c s -> In m (out s) -> 0 <= o_tag m < ntag s.
-Proof. intros I H. exact (proj1 (Forall_forall _ _) (inv_tags _ _ I) m H). Qed.
-
-Lemma inv_qos_ok c s m : Inv c s -> In m (out s) -> qos_okb m = true.
-Proof. intros I H. exact (proj1 (Forall_forall _ _) (inv_qos _ _ I) m H). Qed.
-
-Lemma rec_msg c s k m : Inv c s -> R c s k -> c_clean c <> 1 -> In m (out s) ->
-  zin (o_tag m) (k2_rec k) = true ->
-  o_qos m = 2 /\ isrec m = true /\ (sock s = true -> cack s = false -> isresend m = true).
-Proof.
-  intros I HR Hc Hin Hz. destruct (r_rec _ _ _ HR Hc _ Hz) as (m' & Hin' & Ht & H).
-  assert (m' = m) by (eapply tag_inj; [apply (inv_nodup_tags _ _ I)| | |]; eassumption).
-  subst. exact H.
-Qed.
-
-Lemma notrec_msg c s k m : Inv c s -> R c s k -> c_clean c <> 1 -> In m (out s) ->
-  isrec m = false -> zin (o_tag m) (k2_rec k) = false.
-Proof.
-  intros I HR Hc Hin Hn. destruct (zin (o_tag m) (k2_rec k)) eqn:E; [|reflexivity].
-  destruct (rec_msg _ _ _ _ I HR Hc Hin E) as (_ & H & _). congruence.
-Qed.
-
-Lemma fresh_notin c s : Inv c s -> ~ In (ntag s) (tags (out s)).
-Proof.
-  intros I H. unfold tags in H. apply in_map_iff in H as (m & E & Hin).
-  pose proof (inv_tag_lt _ _ _ I Hin). lia.
-Qed.
-Lemma fresh_h1 c s k : R c s k -> zin (ntag s) (k2_h1 k) = false.
-Proof.
-  intros HR. destruct (zin (ntag s) (k2_h1 k)) eqn:E; [|reflexivity].
-  pose proof (r_h1b _ _ _ HR _ E). lia.
-Qed.
-Lemma fresh_sent c s k : R c s k -> zin (ntag s) (k2_sent k) = false.
-Proof.
-  intros HR. destruct (zin (ntag s) (k2_sent k)) eqn:E; [|reflexivity].
-  pose proof (r_sh _ _ _ HR _ E) as H. lia.
-Qed.
-Lemma fresh_rec c s k : Inv c s -> R c s k -> zin (ntag s) (k2_rec k) = false.
-Proof.
-  intros I HR. destruct (zin (ntag s) (k2_rec k)) eqn:E; [|reflexivity].
-  exfalso. exact (fresh_notin _ _ I (r_recl _ _ _ HR _ E)).
-Qed.
-
-Definition pers (c : cfg) : bool := negb (c_clean c =? 1).
-Lemma cfg_clean c : cfg_ok c = true -> c_clean c = 0 \/ c_clean c = 1 \/ c_clean c = 2.
-Proof. unfold cfg_ok. lia. Qed.
-Lemma pers_true c : pers c = true -> c_clean c <> 1.
-Proof. unfold pers. lia. Qed.
-Lemma pers_false c : pers c = false -> c_clean c = 1.
-Proof. unfold pers. lia. Qed.
-
-Lemma tags_lm l : map l_tag (map lm l) = tags l.
-Proof. unfold tags. rewrite map_map. reflexivity. Qed.
-
-Lemma wait_of_notrec m q : o_st m = wait_of q -> isrec m = false.
-Proof. unfold wait_of, isrec. intros ->. destruct (q =? 1); reflexivity. Qed.
-
-(* every tag of a queued PUBLISH is below the counter; a QoS>0 one belongs to a stored message in its wait state *)
-Lemma outq_pub c s k x mi qs d t : Inv c s -> R c s k -> In x (outq s) -> q_pkt x = PPublish mi qs d t ->
-  t < ntag s /\ 0 <= qs /\
-  (qs <> 0 -> exists w, In w (out s) /\ o_tag w = t /\ o_dup w = d /\ o_st w = wait_of qs /\ 0 < qs).
-Proof.
-  intros I HR Hx Ex.
-  pose proof (proj1 (Forall_forall _ _) (inv_q _ _ I) x Hx) as Hok. unfold qpkt_ok in Hok. rewrite Ex in Hok.
-  pose proof (proj1 (Forall_forall _ _) (r_pk _ _ _ HR) x Hx) as Hpk. unfold pk_inv in Hpk. rewrite Ex in Hpk.
-  destruct (Z.eq_dec qs 0) as [E0|E0].
-  - destruct Hpk as (_ & _ & H0). destruct (H0 E0) as (_ & _ & Hlt). split; [exact Hlt|]. split; [lia|]. intros H; contradiction.
-  - destruct (Hok E0) as (w & Hw & H1 & H2 & H3 & H4 & H5).
-    pose proof (qos_pos w (inv_qos_ok _ _ _ I Hw)) as Hq. pose proof (inv_tag_lt _ _ _ I Hw) as Ht.
-    split; [lia|]. split; [lia|]. intros _. exists w. repeat split; try assumption. lia.
-Qed.
-
-(* the queue can be written at any time *)
-Lemma outq_wc c s k : Inv c s -> R c s k -> Forall (wc (pers c) k) (outq s).
-Proof.
-  intros I HR. apply Forall_forall. intros x Hx.
-  pose proof (proj1 (Forall_forall _ _) (r_pk _ _ _ HR) x Hx) as Hpk. unfold pk_inv, wc in *.
-  destruct (q_pkt x) as [|mi qs d t| | | |] eqn:Ex; try exact Logic.I.
-  destruct Hpk as (P1 & P2 & P3). destruct (outq_pub c s k x mi qs d t I HR Hx Ex) as (Hlt & Hq0 & Hw).
-  split; [|split; [exact P1|split; [exact P2|split; [|exact Hq0]]]].
-  - intros Ep. destruct (Z.eq_dec qs 0) as [E0|E0].
-    + destruct (P3 E0) as (_ & Hn & _). destruct (zin t (k2_rec k)) eqn:E; [|reflexivity].
-      exfalso. exact (Hn (r_recl _ _ _ HR _ E)).
-    + destruct (Hw E0) as (w & Hwi & <- & _ & Hst & _).
-      apply (notrec_msg c s k w I HR (pers_true _ Ep) Hwi). eapply wait_of_notrec; exact Hst.
-  - intros E0. destruct (P3 E0) as (Hd & Hn & _). split; [exact Hd|]. split.
-    + rewrite (r_live _ _ _ HR), tags_lm. exact Hn.
-    + destruct (zin t (k2_rec k)) eqn:E; [|reflexivity]. exfalso. exact (Hn (r_recl _ _ _ HR _ E)).
-Qed.
-
-Lemma pub_nrec m : isPub m = true -> isrec m = false.
-Proof. mcrush. Qed.
-Lemma queued_nrec m : is_queued m = true -> isrec m = false.
-Proof. mcrush. Qed.
-
-(* the PUBLISH of a stored message that was not yet handed to this connection can be handed over *)
-Lemma msg_hc c s k m : Inv c s -> R c s k -> In m (out s) -> isPub m = true \/ is_queued m = true ->
-  hc (pers c) k (rel_pk m).
-Proof.
-  intros I HR Hin Hst. unfold hc, rel_pk, pub_pkt. cbn [q_pkt].
-  split; [|split; [|split]].
-  - intros Ep. apply (notrec_msg c s k m I HR (pers_true _ Ep) Hin).
-    destruct Hst as [H|H]; [apply pub_nrec | apply queued_nrec]; exact H.
-  - rewrite (r_h1 _ _ _ HR m Hin). symmetry. destruct Hst as [H|H]; [apply snt_pub | apply snt_queued]; exact H.
-  - apply (r_pend _ _ _ HR m Hin Hst).
-  - apply qos_pos. exact (inv_qos_ok _ _ _ I Hin).
-Qed.
-
-(* ---------------------------------------------------------------- checker: operations without an accepting CONNACK *)
-Lemma k02_op_plain p k evs : existsb is_connack0 evs = false ->
-  k02_op p k evs = fold_left (k02_ev p) evs k.
-Proof. intros H. unfold k02_op. rewrite H, andb_false_r. reflexivity. Qed.
-
-Definition quiet (e : event) : bool :=
-  match e with
-  | Ret _ _ q rc => negb ((q >? 0) && ((rc =? 0) || (rc =? 4)))
-  | Inp (IPubrec _) | Inp (IConnack _) => false
-  | Tx _ (PPublish _ _ _ _) | Handed _ (PPublish _ _ _ _) => false
-  | CbPublish _ _ | SockOpened _ | Blk _ => false
-  | _ => true
-  end.
-
-Lemma quiet_ev p k e : quiet e = true -> k02_ev p k e = k.
-Proof.
-  destruct e as [cn pk|tag mid q rc|mid tag|tag|mid q tag| |ip| |cn| |cn pk|tag|b]; cbn [quiet k02_ev]; try reflexivity; try discriminate.
-  - destruct pk; try reflexivity; discriminate.
-  - intros H. destruct ((q >? 0) && ((rc =? 0) || (rc =? 4))); [discriminate|reflexivity].
-  - destruct ip; try reflexivity; discriminate.
-  - destruct pk; try reflexivity; discriminate.
-Qed.
-
-Lemma quiet_fold p evs : forall k, forallb quiet evs = true ->
-  fold_left (k02_ev p) evs k = k /\ existsb is_connack0 evs = false.
-Proof.
-  induction evs as [|e evs IH]; intros k H; cbn [fold_left existsb forallb] in *; [split; reflexivity|].
-  apply andb_true_iff in H as [H1 H2]. rewrite (quiet_ev p k e H1). destruct (IH k H2) as [E1 E2].
-  split; [exact E1|]. rewrite E2, orb_false_r. destruct e as [? ?|? ? ? ?|? ?|?|? ? ?| |ip| |?| |? ?|?|?]; try reflexivity.
-  destruct ip; try reflexivity; discriminate.
-Qed.
-
-Lemma quiet_op p k evs : forallb quiet evs = true -> k02_op p k evs = k.
-Proof.
-  intros H. destruct (quiet_fold p evs k H) as [E1 E2]. rewrite k02_op_plain by exact E2. exact E1.
-Qed.
-
-Lemma noconn_ev1 can cn H : existsb is_connack0 (flat_map (ev1 can cn) H) = false.
-Proof. induction H as [|x H IH]; [reflexivity|]. cbn [flat_map ev1 app existsb is_connack0]. destruct can; cbn [app existsb is_connack0]; exact IH. Qed.
-
-Lemma noconn_flush cn q : existsb is_connack0 (flush_evs cn q) = false.
-Proof.
-  induction q as [|x q IH]; [reflexivity|]. cbn [flush_evs existsb is_connack0]. rewrite existsb_app, IH, orb_false_r.
-  unfold written_evs. destruct (q_pkt x) as [|m qs d t| | | |]; try reflexivity. destruct (qs =? 0); reflexivity.
-Qed.
-
-Lemma send_hand_all s x : send s x = (with_q s (fst (hand_all (conn s) (can_write s) (outq s) [x])),
-                                       snd (hand_all (conn s) (can_write s) (outq s) [x])).
-Proof.
-  unfold send. cbn [hand_all]. destruct (pq (conn s) (can_write s) (outq s) x) as [q' ev].
-  rewrite app_nil_r. reflexivity.
-Qed.
-
-(* ---------------------------------------------------------------- preservation: generic moves *)
-Lemma pk_inv_ext s s' k x : out s' = out s -> ntag s <= ntag s' -> pk_inv s k x -> pk_inv s' k x.
-Proof.
-  intros E1 E2. unfold pk_inv. destruct (q_pkt x); try exact (fun H => H). rewrite E1.
-  intros (H1 & H2 & H3). split; [exact H1|]. split; [exact H2|]. intros E0. destruct (H3 E0) as (A & B & C0). repeat split; try assumption. lia.
-Qed.
-
-Lemma R_ext c s s' k : out s' = out s -> ntag s <= ntag s' -> sock s' = sock s -> cack s' = cack s ->
-  first s' = first s -> outq s' = outq s -> blocked s' = blocked s -> R c s k -> R c s' k.
-Proof.
-  intros E1 E2 E3 E4 E5 E6 E7 [H1 H2 H3 H4 H5 H6 H7 H8 H9 H10 H11 H12 H13].
-  constructor; rewrite ?E1, ?E3, ?E4, ?E5, ?E6, ?E7; try assumption.
-  - intros t Ht. specialize (H4 t Ht). lia.
-  - intros t Ht. specialize (H5 t Ht). lia.
-  - eapply Forall_impl; [|exact H11]. intros x. apply pk_inv_ext; assumption.
-Qed.
-
-Lemma R_down c s s' k : out s' = out s -> ntag s' = ntag s -> sock s' = false -> cack s' = false ->
-  (first s' = true -> first s = true) -> outq s' = outq s -> R c s k -> R c s' k.
-Proof.
-  intros E1 E2 E3 E4 E5 E6 [H1 H2 H3 H4 H5 H6 H7 H8 H9 H10 H11 H12 H13].
-  constructor; rewrite ?E1, ?E2, ?E6; try assumption.
-  - intros Hc t Ht. destruct (H7 Hc t Ht) as (m & Hin & Et & Hq & Hr & _).
-    exists m. repeat split; try assumption. rewrite E3. discriminate.
-  - rewrite E4. discriminate.
-  - intros Hc Hf. apply H10; [exact Hc | apply E5; exact Hf].
-  - eapply Forall_impl; [|exact H11]. intros x. apply pk_inv_ext; [assumption | lia].
-  - rewrite E3. discriminate.
-Qed.
-
-(* a reply handed over (and perhaps written): nothing the checker looks at *)
-Definition is_reply (x : qpkt) : Prop :=
-  match q_pkt x with PPuback _ | PPubrec _ | PPubcomp _ => True | _ => False end.
-
-Lemma reply_noq0 x : is_reply x -> noq0 x /\ pubtag x = [].
-Proof. unfold is_reply, noq0, pubtag. destruct (q_pkt x); try contradiction; intros _; split; reflexivity. Qed.
-
-Lemma reply_quiet can cn x : is_reply x -> forallb quiet (ev1 can cn x) = true.
-Proof. unfold is_reply, ev1. destruct (q_pkt x); try contradiction; intros _; destruct can; reflexivity. Qed.
-
-Lemma R_send_reply c s k x pre : Inv c s -> is_reply x -> forallb quiet pre = true -> R c s k ->
-  R c (fst (send s x)) (k02_op (pers c) k (pre ++ snd (send s x))).
-Proof.
-  intros I Hx Hpre HR. destruct (reply_noq0 x Hx) as [Hn Hp].
-  rewrite send_hand_all. cbn [fst snd].
-  rewrite (hand_all_evs _ _ _ _ (inv_qidle _ _ I) ltac:(constructor; [exact Hn|constructor])).
-  cbn [flat_map]. rewrite app_nil_r.
-  rewrite quiet_op by (rewrite forallb_app, Hpre; apply reply_quiet; exact Hx).
-  rewrite (hand_all_fst _ _ _ _ (inv_qidle _ _ I)).
-  destruct HR as [H1 H2 H3 H4 H5 H6 H7 H8 H9 H10 H11 H12 H13].
-  constructor; cbn [out ntag sock cack first outq blocked with_q]; try assumption.
-  - destruct (can_write s); [constructor|]. apply Forall_app. split; [exact H11|].
-    constructor; [|constructor]. unfold pk_inv. unfold is_reply in Hx. destruct (q_pkt x); try contradiction; exact Logic.I.
-  - destruct (can_write s); [constructor|]. rewrite pubtags_app. unfold pubtags at 2. cbn [flat_map]. rewrite Hp, app_nil_r. exact H12.
-Qed.
-
-(* ---------------------------------------------------------------- publish() *)
-(* all tags in the queue are below the counter *)
-Lemma outq_tags_lt c s k t : Inv c s -> R c s k -> In t (pubtags (outq s)) -> t < ntag s.
-Proof.
-  intros I HR Ht. unfold pubtags in Ht. apply in_flat_map in Ht as (x & Hx & Ht).
-  unfold pubtag in Ht. destruct (q_pkt x) as [|mi qs d t0| | | |] eqn:Ex; try (destruct Ht; fail).
-  destruct Ht as [<-|[]]. exact (proj1 (outq_pub c s k x mi qs d t0 I HR Hx Ex)).
-Qed.
-
-Lemma idle_ext (s s1 : sess) : sock s1 = sock s -> blocked s1 = blocked s -> outq s1 = outq s ->
-  (can_write s = true -> outq s = []) -> (can_write s1 = true -> outq s1 = []).
-Proof. unfold can_write. intros -> -> ->. exact (fun H => H). Qed.
-
-Lemma pk_inv_mono s s' k k' x :
-  (forall t, zin t (k2_sent k') = true -> zin t (k2_sent k) = true \/ ~ In t (pubtag x)) ->
-  (forall t, zin t (k2_h2 k) = true -> zin t (k2_h2 k') = true) ->
-  (forall t, In t (tags (out s')) -> In t (tags (out s)) \/ ~ In t (pubtag x)) -> ntag s <= ntag s' ->
-  pk_inv s k x -> pk_inv s' k' x.
-Proof.
-  unfold pk_inv, pubtag. destruct (q_pkt x) as [|mi qs d t| | | |]; try (intros; exact Logic.I).
-  intros Hs Hh Ht Hn (P1 & P2 & P3). split; [|split].
-  - intros H. destruct (Hs t H) as [H'|H']; [exact (P1 H') | exfalso; apply H'; left; reflexivity].
-  - intros H. apply Hh. exact (P2 H).
-  - intros E0. destruct (P3 E0) as (A & B & C0). split; [exact A|]. split; [|lia].
-    intros H. destruct (Ht t H) as [H'|H']; [exact (B H') | apply H'; left; reflexivity].
-Qed.
-
-(* the queued packets stay sound when a message with the fresh tag is stored *)
-Lemma pk_grow c s k s' k' : Inv c s -> R c s k ->
-  (forall t, In t (tags (out s')) -> In t (tags (out s)) \/ t = ntag s) -> ntag s <= ntag s' ->
-  (forall t, zin t (k2_sent k') = true -> zin t (k2_sent k) = true \/ t = ntag s) ->
-  (forall t, zin t (k2_h2 k) = true -> zin t (k2_h2 k') = true) ->
-  Forall (pk_inv s' k') (outq s).
-Proof.
-  intros I HR Ht Hn Hs Hh. apply Forall_forall. intros y Hy.
-  pose proof (proj1 (Forall_forall _ _) (r_pk _ _ _ HR) y Hy) as Hpk. unfold pk_inv in *.
-  destruct (q_pkt y) as [|mi qs d t| | | |] eqn:Ey; try exact Logic.I.
-  destruct (outq_pub c s k y mi qs d t I HR Hy Ey) as (Hlt & _ & _).
-  destruct Hpk as (P1 & P2 & P3). split; [|split].
-  - intros H. destruct (Hs t H) as [H'|H']; [exact (P1 H') | lia].
-  - intros H. apply Hh. exact (P2 H).
-  - intros E0. destruct (P3 E0) as (A & B & C0). split; [exact A|]. split; [|lia].
-    intros H. destruct (Ht t H) as [H'|H']; [exact (B H') | lia].
-Qed.
-
-Lemma step_publish c s k q : cfg_ok c = true -> Inv c s -> conf_op c s (OPublish q) = true -> R c s k ->
-  R c (fst (do_publish c s q)) (k02_op (pers c) k (snd (do_publish c s q))).
-Proof.
-  intros Hcfg I Hq HR. cbn [conf_op] in Hq. pose proof (inv_qidle _ _ I) as Hi. unfold do_publish. cbv zeta.
-  set (mid := mid_next (last_mid s)).
-  set (s1 := mkS (out s) (inm s) (inflight s) mid (sock s) (first s) (cack s) (conn s) (ntag s + 1) (outq s) (blocked s)).
-  assert (HR1 : R c s1 k) by (apply (R_ext c s); try reflexivity; [cbn; lia | exact HR]).
-  pose proof (fresh_h1 _ _ _ HR) as Fh. pose proof (fresh_sent _ _ _ HR) as Fs. pose proof (fresh_rec _ _ _ I HR) as Fr.
-  pose proof (fresh_notin _ _ I) as Fn.
-  assert (Fq : ~ In (ntag s) (pubtags (outq s))) by (intros H; pose proof (outq_tags_lt c s k _ I HR H); lia).
-  destruct (q =? 0) eqn:E0.
-  - assert (q = 0) by lia. subst q. destruct (sock s) eqn:Hs; cbn [fst snd].
-    2:{ rewrite quiet_op by reflexivity. exact HR1. }
-    set (x := mkQ (PPublish mid 0 false (ntag s)) true).
-    assert (Hi1 : can_write s1 = true -> outq s1 = []) by (apply (idle_ext s); [cbn; congruence | reflexivity | reflexivity | exact Hi]).
-    rewrite (send_hand_all s1 x). cbn [fst snd]. rewrite (hand_all_fst _ _ _ _ Hi1).
-    destruct HR as [H1 H2 H3 H4 H5 H6 H7 H8 H9 H10 H11 H12 H13].
-    destruct (can_write s1) eqn:Ec.
-    + (* written at once *)
-      rewrite (Hi1 eq_refl), hand_all_can. cbn [snd flat_map flush_evs written_evs x q_pkt app].
-      change (0 =? 0) with true. cbv iota. cbn [app].
-      rewrite k02_op_plain by reflexivity. cbn [fold_left k02_ev].
-      cbn [k2_ok k2_live k2_h1 k2_h2 k2_sent k2_rec k2_blk]. rewrite Fh, Fs, Fr.
-      change (0 >? 0) with false. cbn [negb andb orb]. rewrite !orb_true_r, !andb_true_r.
-      constructor; cbn [k2_ok k2_live k2_h1 k2_h2 k2_sent k2_rec k2_blk out ntag sock cack first outq blocked with_q s1].
-      * exact H1.
-      * rewrite H2. apply lrem_tag_notin. exact Fn.
-      * intros m Hin. rewrite zin_zadd. pose proof (inv_tag_lt _ _ _ I Hin).
-        replace (o_tag m =? ntag s) with false by lia. apply H3. exact Hin.
-      * intros t Ht. rewrite zin_zadd in Ht. apply orb_true_iff in Ht as [Ht|Ht]; [lia|]. specialize (H4 t Ht). lia.
-      * intros t Ht. rewrite zin_zadd in Ht. apply orb_true_iff in Ht as [Ht|Ht]; [lia|]. specialize (H5 t Ht). lia.
-      * intros m Hin Hst Hz. rewrite zin_zadd in Hz. pose proof (inv_tag_lt _ _ _ I Hin).
-        replace (o_tag m =? ntag s) with false in Hz by lia. exact (H6 m Hin Hst Hz).
-      * intros Hc t Ht. rewrite zin_zrem in Ht. apply andb_true_iff in Ht as [_ Ht].
-        destruct (H7 Hc t Ht) as (m & A & B & C1 & D & E). exists m. repeat split; try assumption. intros _. apply E. exact Hs.
-      * intros t Ht. rewrite zin_zrem in Ht. apply andb_true_iff in Ht as [_ Ht]. exact (H8 t Ht).
-      * exact H9.
-      * intros Hc Hf. rewrite (H10 Hc Hf). reflexivity.
-      * constructor.
-      * constructor.
-      * intros _. exact (H13 Hs).
-    + (* the transport refuses writes: the packet waits in the queue *)
-      rewrite hand_all_blocked. cbn [snd map app x q_pkt].
-      rewrite k02_op_plain by reflexivity. cbn [fold_left k02_ev].
-      cbn [k2_ok k2_live k2_h1 k2_h2 k2_sent k2_rec k2_blk]. rewrite Fh.
-      change (0 >? 0) with false. cbn [negb andb orb]. rewrite !andb_true_r.
-      constructor; cbn [k2_ok k2_live k2_h1 k2_h2 k2_sent k2_rec k2_blk out ntag sock cack first outq blocked with_q s1];
-        try assumption.
-      * intros m Hin. rewrite zin_zadd. pose proof (inv_tag_lt _ _ _ I Hin).
-        replace (o_tag m =? ntag s) with false by lia. apply H3. exact Hin.
-      * intros t Ht. rewrite zin_zadd in Ht. apply orb_true_iff in Ht as [Ht|Ht]; [lia|]. specialize (H4 t Ht). lia.
-      * intros t Ht. specialize (H5 t Ht). lia.
-      * intros Hc t Ht. destruct (H7 Hc t Ht) as (m & A & B & C1 & D & E). exists m. repeat split; try assumption. intros _. apply E. exact Hs.
-      * apply Forall_app. split.
-        -- apply (pk_grow c s k _ _ I (mkR c s k H1 H2 H3 H4 H5 H6 H7 H8 H9 H10 H11 H12 H13));
-             [intros t Ht; left; exact Ht | cbn; lia | intros t Ht; left; exact Ht | intros t Ht; exact Ht].
-        -- constructor; [|constructor]. unfold pk_inv. cbn [q_pkt x k2_sent k2_h2 out ntag with_q s1].
-           split; [intros Hz; congruence|]. split; [discriminate|]. intros _. split; [reflexivity|]. split; [exact Fn | lia].
-      * rewrite pubtags_app. cbn. apply NoDup_app_snoc; assumption.
-      * intros _. exact (H13 Hs).
-  - assert (Hq0 : (q >? 0) = true) by lia.
-    destruct ((c_maxq c >? 0) && (Z.of_nat (length (out s)) >=? c_maxq c)); cbn [fst snd].
-    { rewrite quiet_op; [exact HR1|]. cbn [forallb quiet]. rewrite Hq0. reflexivity. }
-    destruct (has_mid mid (out s)); cbn [fst snd].
-    { rewrite quiet_op; [exact HR1|]. cbn [forallb quiet]. rewrite Hq0. reflexivity. }
-    (* common part: the stored messages grow by one with the fresh tag *)
-    assert (Hgrow : forall st s' k', out s' = out s ++ [mkO mid q st false (ntag s)] -> ntag s' = ntag s + 1 ->
-              sock s' = sock s -> cack s' = cack s -> first s' = first s -> blocked s' = blocked s ->
-              k2_ok k' = true -> k2_live k' = k2_live k ++ [lm (mkO mid q st false (ntag s))] ->
-              k2_rec k' = k2_rec k -> k2_blk k' = k2_blk k ->
-              (forall t, zin t (k2_h1 k') = zin t (k2_h1 k) || (snt (mkO mid q st false (ntag s)) && (t =? ntag s))) ->
-              (forall t, zin t (k2_sent k') = true -> zin t (k2_sent k) = true \/ (t = ntag s /\ snt (mkO mid q st false (ntag s)) = true)) ->
-              Forall (pk_inv s' k') (outq s') -> NoDup (pubtags (outq s')) ->
-              R c s' k').
-    { intros st s' k' E1 E2 E3 E4 E5 E6 Kok Kl Kr Kb Kh Ks Kpk Knd.
-      destruct HR as [H1 H2 H3 H4 H5 H6 H7 H8 H9 H10 H11 H12 H13].
-      constructor; rewrite ?E1, ?E2, ?E3, ?E4, ?E5, ?E6, ?Kr, ?Kb; try assumption.
-      - rewrite Kl, map_app, H2. reflexivity.
-      - intros m Hin. rewrite Kh. apply in_app_or in Hin as [Hin|[<-|[]]].
-        + pose proof (inv_tag_lt _ _ _ I Hin). replace (o_tag m =? ntag s) with false by lia.
-          rewrite andb_false_r, orb_false_r. apply H3. exact Hin.
-        + cbn [o_tag]. rewrite Fh, Z.eqb_refl, andb_true_r. reflexivity.
-      - intros t Ht. rewrite Kh in Ht. apply orb_true_iff in Ht as [Ht|Ht]; [specialize (H4 t Ht); lia | lia].
-      - intros t Ht. destruct (Ks t Ht) as [Hs'|[-> Hsn]]; [specialize (H5 t Hs'); lia | lia].
-      - intros m Hin Hst Hz. apply in_app_or in Hin as [Hin|[<-|[]]].
-        + destruct (Ks _ Hz) as [Hs'|[Et _]]; [exact (H6 m Hin Hst Hs')|]. pose proof (inv_tag_lt _ _ _ I Hin). lia.
-        + reflexivity || (destruct (Ks _ Hz) as [Hs'|[_ Hsn]]; [cbn [o_tag] in Hs'; congruence|]).
-          exfalso. destruct Hst as [Hst|Hst]; revert Hsn Hst; unfold snt, isPub, is_queued, is_wait; cbn [o_st o_dup];
-            destruct st; cbn; congruence.
-      - intros Hc t Ht. destruct (H7 Hc t Ht) as (m & Hin & H). exists m. split; [apply in_or_app; left; exact Hin | exact H].
-      - intros t Ht. rewrite tags_app. apply in_or_app. left. exact (H8 t Ht). }
-    destruct (window_free c (inflight s)); [destruct (sock s) eqn:Hs|]; cbn [fst snd].
-    + (* stored in a wait state, handed over (and written unless blocked) *)
-      set (S1 := with_out s1 (out s ++ [mkO mid q (wait_of q) false (ntag s)]) (inflight s + 1)).
-      set (x := mkQ (PPublish mid q false (ntag s)) true).
-      assert (Hi1 : can_write S1 = true -> outq S1 = []) by (apply (idle_ext s); [cbn; congruence | reflexivity | reflexivity | exact Hi]).
-      assert (Hn : noq0 x) by exact E0.
-      rewrite (send_hand_all S1 x). cbn [fst snd].
-      rewrite (hand_all_evs _ _ _ _ Hi1 ltac:(constructor; [exact Hn|constructor])), (hand_all_fst _ _ _ _ Hi1).
-      rewrite k02_op_plain by (rewrite existsb_app, noconn_ev1; reflexivity). rewrite fold_left_app.
-      assert (Hhc : Forall (hc (pers c) k) [x]).
-      { constructor; [|constructor]. unfold hc. cbn [x q_pkt]. split; [intros _; exact Fr|]. split; [symmetry; exact Fh|].
-        split; [intros Hz; congruence | lia]. }
-      destruct (hand_fold (pers c) (can_write S1) (conn S1) [x] k (r_ok _ _ _ HR) ltac:(cbn; repeat constructor; intros [])
-                  Hhc) as ((Ok1 & L1 & R1 & B1) & A1 & A2 & A3).
-      set (k1 := fold_left (k02_ev (pers c)) (flat_map (ev1 (can_write S1) (conn S1)) [x]) k) in *.
-      cbn [fold_left k02_ev]. rewrite Hq0. cbn [Z.eqb andb orb].
-      assert (Hsn : snt (mkO mid q (wait_of q) false (ntag s)) = true).
-      { unfold snt, is_wait, wait_of. cbn [o_st]. destruct (q =? 1); reflexivity. }
-      eapply (Hgrow (wait_of q)); try reflexivity; cbn [k2_ok k2_live k2_h1 k2_h2 k2_sent k2_rec k2_blk outq with_q]; try assumption.
-      * rewrite L1. reflexivity.
-      * intros t. rewrite A1, Hsn. cbn [pubtags flat_map pubtag x q_pkt app zin andb]. rewrite orb_false_r. reflexivity.
-      * intros t Ht. rewrite A3 in Ht. apply orb_true_iff in Ht as [Ht|Ht]; [left; exact Ht|]. right.
-        apply andb_true_iff in Ht as [_ Ht]. cbn in Ht. split; [lia | exact Hsn].
-      * destruct (can_write S1) eqn:Ec; [constructor|]. apply Forall_app. split.
-        -- apply (pk_grow c s k _ _ I HR).
-           ++ intros t Ht. cbn [out with_out with_q S1] in Ht. rewrite tags_app in Ht.
-              apply in_app_or in Ht as [Ht|[<-|[]]]; [left; exact Ht | right; reflexivity].
-           ++ cbn. lia.
-           ++ intros t Ht. rewrite A3 in Ht. cbn [andb] in Ht. rewrite orb_false_r in Ht. left. exact Ht.
-           ++ intros t Ht. rewrite A2, Ht. reflexivity.
-        -- constructor; [|constructor]. unfold pk_inv. cbn [x q_pkt].
-           split; [intros Hz; rewrite A3 in Hz; cbn [andb] in Hz; rewrite orb_false_r in Hz; congruence|].
-           split; [discriminate|]. intros; lia.
-      * destruct (can_write S1); [constructor|]. rewrite pubtags_app. cbn. apply NoDup_app_snoc; [exact (r_nd _ _ _ HR) | exact Fq].
-    + (* offline: stored, nothing handed over *)
-      rewrite k02_op_plain by reflexivity. cbn [fold_left k02_ev]. rewrite Hq0. cbn [Z.eqb andb orb].
-      eapply (Hgrow MsPublish); try reflexivity; cbn [k2_ok k2_live k2_h1 k2_h2 k2_sent k2_rec k2_blk outq with_out s1]; try (cbn; congruence).
-      * exact (r_ok _ _ _ HR).
-      * intros t. cbn. rewrite orb_false_r. reflexivity.
-      * intros t Ht. left. exact Ht.
-      * apply (pk_grow c s k _ _ I HR).
-        -- intros t Ht. cbn [out with_out s1] in Ht. rewrite tags_app in Ht.
-           apply in_app_or in Ht as [Ht|[<-|[]]]; [left; exact Ht | right; reflexivity].
-        -- cbn. lia.
-        -- intros t Ht. left. exact Ht.
-        -- intros t Ht. exact Ht.
-      * exact (r_nd _ _ _ HR).
-    + (* queued behind the window *)
-      rewrite k02_op_plain by reflexivity. cbn [fold_left k02_ev]. rewrite Hq0. cbn [Z.eqb andb orb].
-      eapply (Hgrow MsQueued); try reflexivity; cbn [k2_ok k2_live k2_h1 k2_h2 k2_sent k2_rec k2_blk outq with_out s1].
-      * exact (r_ok _ _ _ HR).
-      * intros t. cbn. rewrite orb_false_r. reflexivity.
-      * intros t Ht. left. exact Ht.
-      * apply (pk_grow c s k _ _ I HR).
-        -- intros t Ht. cbn [out with_out s1] in Ht. rewrite tags_app in Ht.
-           apply in_app_or in Ht as [Ht|[<-|[]]]; [left; exact Ht | right; reflexivity].
-        -- cbn. lia.
-        -- intros t Ht. left. exact Ht.
-        -- intros t Ht. exact Ht.
-      * exact (r_nd _ _ _ HR).
-Qed.
-
-(* ---------------------------------------------------------------- reconnect() *)
-Lemma reset_char c s cl : cfg_ok c = true -> Inv c s ->
-  exists A B n, out s = A ++ B /\ Forall (fun m => o_st m = MsPublish \/ o_st m = MsQueued) B /\
-    reset_out_list c cl 0 (out s) = (map (reset1 cl) A ++ map toQ B, n).
-Proof.
-  intros Hcfg I. pose proof (max_nonneg c Hcfg) as Hmax. destruct (inv_shape _ _ I) as (C & U & Q & Sh).
-  destruct (reset_out_char c cl Hmax (out s) 0 ltac:(lia)) as (j & Hj & E & Hfull & Hle).
-  exists (firstn j (out s)), (skipn j (out s)), (0 + Z.of_nat j).
-  split; [symmetry; apply firstn_skipn|]. split; [|exact E].
-  destruct (Nat.eq_dec j (length (out s))) as [->|Hne]. { rewrite skipn_all. constructor. }
-  assert (Hlt : (j < length (out s))%nat) by lia. destruct (Hfull Hlt) as [Hpos Hge].
-  pose proof (sh_max _ _ _ _ _ Sh Hpos) as HC.
-  rewrite (sh_out _ _ _ _ _ Sh). rewrite skipn_app. rewrite (skipn_all2 C) by lia. cbn [app].
-  apply Forall_skipn. apply Forall_app; split.
-  - eapply Forall_impl; [|exact (sh_U _ _ _ _ _ Sh)]. cbn; intros; left; assumption.
-  - eapply Forall_impl; [|exact (sh_Q _ _ _ _ _ Sh)]. intros a Ha. right.
-    unfold is_queued in Ha. destruct (o_st a); try discriminate; reflexivity.
-Qed.
-
-Lemma pend_reset1 cl m : qos_okb m = true -> isPub (reset1 cl m) = true \/ is_queued (reset1 cl m) = true ->
-  o_dup (reset1 cl m) = true \/ ((isPub m = true \/ is_queued m = true) /\ o_dup (reset1 cl m) = o_dup m).
-Proof. destruct cl; mcrush. Qed.
-
-Lemma lost_quiet q : forallb quiet (flat_map lost_evs q) = true.
-Proof.
-  induction q as [|x q IH]; [reflexivity|]. cbn [flat_map]. rewrite forallb_app, IH, andb_true_r.
-  unfold lost_evs. destruct (q_pkt x) as [|m qs d t| | | |]; try reflexivity.
-  destruct ((qs =? 0) && q_info x); reflexivity.
-Qed.
-
-Lemma R_reset c s k k' A B i n sk cn :
-  cfg_ok c = true -> Inv c s -> R c s k -> out s = A ++ B ->
-  Forall (fun m => o_st m = MsPublish \/ o_st m = MsQueued) B ->
-  k2_ok k' = k2_ok k -> k2_live k' = k2_live k -> k2_h1 k' = k2_h1 k -> k2_h2 k' = k2_h2 k ->
-  k2_sent k' = k2_sent k -> k2_rec k' = k2_rec k -> k2_blk k' = false ->
-  R c (mkS (map (reset1 (clean_now c s)) A ++ map toQ B) i n (last_mid s) sk (first s) false cn (ntag s) [] false) k'.
-Proof.
-  intros Hcfg I HR Eo HB K1 K2 K3 K4 K5 K6 K7.
-  constructor; cbn [out ntag sock cack first outq blocked]; rewrite ?K1, ?K2, ?K3, ?K4, ?K5, ?K6, ?K7.
-  - exact (r_ok _ _ _ HR).
-  - rewrite (r_live _ _ _ HR), Eo, !map_app, !map_map. f_equal. apply map_ext; intros a. symmetry. apply lm_reset1.
-  - intros m' Hin. apply in_app_or in Hin as [Hin|Hin]; apply in_map_iff in Hin as (x & <- & Hx).
-    + assert (Hox : In x (out s)) by (rewrite Eo; apply in_or_app; left; exact Hx).
-      rewrite reset1_tag, (snt_reset1 _ _ (inv_qos_ok _ _ _ I Hox)). apply (r_h1 _ _ _ HR). exact Hox.
-    + assert (Hox : In x (out s)) by (rewrite Eo; apply in_or_app; right; exact Hx).
-      change (o_tag (toQ x)) with (o_tag x).
-      rewrite (snt_toQ _ (proj1 (Forall_forall _ _) HB x Hx)). apply (r_h1 _ _ _ HR). exact Hox.
-  - exact (r_h1b _ _ _ HR).
-  - exact (r_sh _ _ _ HR).
-  - intros m' Hin Hst Hz. apply in_app_or in Hin as [Hin|Hin]; apply in_map_iff in Hin as (x & <- & Hx).
-    + assert (Hox : In x (out s)) by (rewrite Eo; apply in_or_app; left; exact Hx).
-      rewrite reset1_tag in Hz.
-      destruct (pend_reset1 (clean_now c s) x (inv_qos_ok _ _ _ I Hox) Hst) as [H|[Hold Hd]]; [exact H|].
-      rewrite Hd. exact (r_pend _ _ _ HR x Hox Hold Hz).
-    + assert (Hox : In x (out s)) by (rewrite Eo; apply in_or_app; right; exact Hx).
-      change (o_tag (toQ x)) with (o_tag x) in Hz. change (o_dup (toQ x)) with (o_dup x).
-      apply (r_pend _ _ _ HR x Hox); [|exact Hz].
-      destruct (proj1 (Forall_forall _ _) HB x Hx) as [E|E]; [left; unfold isPub | right; unfold is_queued]; rewrite E; reflexivity.
-  - intros Hc t Ht. destruct (clean_now c s) eqn:Ecl.
-    + unfold clean_now in Ecl. destruct (c_clean c =? 0) eqn:E0; [discriminate|].
-      destruct (c_clean c =? 1) eqn:E1; [lia|].
-      assert (H2 : c_clean c = 2) by (destruct (cfg_clean c Hcfg) as [?|[?|?]]; lia).
-      rewrite (r_clean _ _ _ HR H2 Ecl) in Ht. discriminate.
-    + destruct (r_rec _ _ _ HR Hc t Ht) as (m & Hin & Et & Hq & Hr & _).
-      rewrite Eo in Hin. apply in_app_or in Hin as [Hin|Hin].
-      * destruct (rec_reset1 m Hq Hr) as [H1 H2].
-        exists (reset1 false m). split; [apply in_or_app; left; apply in_map; exact Hin|].
-        rewrite reset1_tag, reset1_qos. repeat split; intros; assumption.
-      * exfalso. apply (rec_nPQ m Hr). exact (proj1 (Forall_forall _ _) HB m Hin).
-  - intros t Ht. pose proof (r_recl _ _ _ HR t Ht) as H. rewrite Eo in H.
-    rewrite tags_app in *. unfold tags in *. rewrite !map_map. 
-    rewrite (map_ext (fun x => o_tag (reset1 (clean_now c s) x)) o_tag) by (intros; apply reset1_tag). exact H.
-  - discriminate.
-  - exact (r_clean _ _ _ HR).
-  - constructor.
-  - constructor.
-  - intros _. reflexivity.
-Qed.
-
-Lemma step_reconnect c s k ok : cfg_ok c = true -> Inv c s -> R c s k ->
-  R c (fst (do_reconnect c s ok)) (k02_op (pers c) k (snd (do_reconnect c s ok))).
-Proof.
-  intros Hcfg I HR. destruct (reset_char c s (clean_now c s) Hcfg I) as (A & B & n & Eo & HB & E).
-  unfold do_reconnect. rewrite E. destruct ok; cbn [fst snd].
-  - rewrite k02_op_plain.
-    2:{ cbn [existsb is_connack0 orb]. rewrite existsb_app. destruct (quiet_fold (pers c) _ k (lost_quiet (outq s))) as [_ ->]. reflexivity. }
-    cbn [fold_left]. rewrite (quiet_ev _ _ Reconn eq_refl), fold_left_app.
-    rewrite (proj1 (quiet_fold (pers c) _ k (lost_quiet (outq s)))). cbn [fold_left k02_ev].
-    apply (R_reset c s k); try assumption; reflexivity.
-  - rewrite k02_op_plain.
-    2:{ cbn [existsb is_connack0 orb]. rewrite existsb_app. destruct (quiet_fold (pers c) _ k (lost_quiet (outq s))) as [_ ->]. reflexivity. }
-    cbn [fold_left]. rewrite (quiet_ev _ _ Reconn eq_refl), fold_left_app.
-    rewrite (proj1 (quiet_fold (pers c) _ k (lost_quiet (outq s)))). cbn [fold_left k02_ev].
-    (* no socket: the blocked flag of the checker is irrelevant *)
-    pose proof (R_reset c s k (mkK02 (k2_live k) (k2_h1 k) (k2_h2 k) (k2_sent k) (k2_rec k) false (k2_ok k)) A B
-                  (if clean_now c s then [] else inm s) n false (conn s) Hcfg I HR Eo HB
-                  eq_refl eq_refl eq_refl eq_refl eq_refl eq_refl eq_refl) as H.
-    destruct H as [H1 H2 H3 H4 H5 H6 H7 H8 H9 H10 H11 H12 H13].
-    constructor; try assumption. cbn [sock]. discriminate.
-Qed.
-
-(* ---------------------------------------------------------------- connection lost *)
-Lemma step_connlost c s k : R c s k ->
-  R c (fst (step c s OConnLost)) (k02_op (pers c) k (snd (step c s OConnLost))).
-Proof.
-  intros HR. cbn [step]. destruct (sock s) eqn:Hs; cbn [fst snd]; rewrite quiet_op by reflexivity; [|exact HR].
-  apply (R_down c s); try reflexivity; [cbn; apply andb_false_r | cbn; tauto | exact HR].
-Qed.
-
-(* ---------------------------------------------------------------- the accepting CONNACK *)
-Lemma pubtags_cl : forall C, pubtags (flat_map cl_pk C) = tags (filter isPub C).
-Proof.
-  induction C as [|m C IH]; [reflexivity|]. cbn [flat_map filter]. rewrite pubtags_app, IH.
-  unfold cl_pk, isPub. destruct (o_st m); try reflexivity. destruct (o_qos m =? 2); reflexivity.
-Qed.
-
-Lemma pubtags_rel : forall L, pubtags (map rel_pk L) = tags L.
-Proof. induction L as [|m L IH]; [reflexivity|]. unfold pubtags in *. cbn [map flat_map]. rewrite IH. reflexivity. Qed.
-
-Lemma noq0_cl_pk m : qos_okb m = true -> Forall noq0 (cl_pk m).
-Proof.
-  intros H. pose proof (qos_pos m H). unfold cl_pk. destruct (o_st m); try constructor.
-  - unfold noq0, pub_pkt. cbn [q_pkt]. lia.
-  - constructor.
-  - destruct (o_qos m =? 2); repeat constructor.
-Qed.
-
-Lemma pubrel_tags_app sel a b : pubrel_tags sel (a ++ b) = pubrel_tags sel a ++ pubrel_tags sel b.
-Proof. unfold pubrel_tags. apply flat_map_app. Qed.
-
-Lemma pubrel_in (can : bool) cn sel :
-  (sel = handed_sel \/ (sel = tx_sel /\ can = true)) ->
-  forall C m, In m C -> isresend m = true -> o_qos m = 2 ->
-  zin (o_tag m) (pubrel_tags sel (flat_map (ev1 can cn) (flat_map cl_pk C))) = true.
-Proof.
-  intros Hsel. induction C as [|x C IH]; intros m Hin Hr Hq; [destruct Hin|].
-  cbn [flat_map]. rewrite flat_map_app, pubrel_tags_app, zin_app. destruct Hin as [->|Hin].
-  - unfold cl_pk, isresend in *. destruct (o_st m); try discriminate.
-    replace (o_qos m =? 2) with true by lia. cbn [flat_map ev1 rel_pkt q_pkt app].
-    destruct Hsel as [->|[-> ->]]; cbn; rewrite Z.eqb_refl; reflexivity.
-  - rewrite (IH m Hin Hr Hq). apply orb_true_r.
-Qed.
-
-Lemma NoDup_app_intro {A} (a b : list A) : NoDup a -> NoDup b -> (forall x, In x a -> In x b -> False) -> NoDup (a ++ b).
-Proof.
-  induction a as [|x a IH]; cbn [app]; intros Ha Hb Hd; [exact Hb|].
-  inversion Ha as [|? ? Hx Ha']; subst. constructor.
-  - intros Hin. apply in_app_or in Hin as [Hin|Hin]; [exact (Hx Hin) | exact (Hd x (or_introl eq_refl) Hin)].
-  - apply IH; [exact Ha' | exact Hb|]. intros y Hy1 Hy2. exact (Hd y (or_intror Hy1) Hy2).
-Qed.
-
-Lemma tags_cl1 C Q : tags (map cl1 C ++ Q) = tags (C ++ Q).
-Proof. rewrite !tags_app. f_equal. unfold tags. rewrite map_map. apply map_ext. apply cl1_tag. Qed.
-
-Lemma step_connack0 c s k r : cfg_ok c = true -> Inv c s -> sock s = true -> cack s = false -> R c s k ->
-  R c (fst (do_rx c s (IConnack 0) r)) (k02_op (pers c) k (snd (do_rx c s (IConnack 0) r))).
-Proof.
-  intros Hcfg I Hs Hck HR. pose proof (inv_qidle _ _ I) as Hi.
-  destruct (connack_char c s r I Hs) as (C & Q & Eo & Sh & E). rewrite E. cbn [fst snd]. clear E.
-  pose proof (sh_C _ _ _ _ _ Sh) as HC. pose proof (sh_Q _ _ _ _ _ Sh) as HQ.
-  set (H := flat_map cl_pk C).
-  assert (HinC : forall x, In x C -> In x (out s)) by (intros; rewrite Eo; apply in_or_app; left; assumption).
-  assert (HinQ : forall x, In x Q -> In x (out s)) by (intros; rewrite Eo; apply in_or_app; right; assumption).
-  assert (HH : Forall noq0 H).
-  { apply Forall_flat_map. apply Forall_forall. intros x Hx. apply noq0_cl_pk. exact (inv_qos_ok _ _ _ I (HinC x Hx)). }
-  pose proof (inv_nodup_tags _ _ I) as Hnd.
-  assert (HndC : NoDup (pubtags H)).
-  { unfold H. rewrite pubtags_cl. unfold tags. apply NoDup_map_filter.
-    rewrite Eo, tags_app in Hnd. apply NoDup_app_l in Hnd. exact Hnd. }
-  assert (Hhc : Forall (hc (pers c) k) H).
-  { apply Forall_flat_map. apply Forall_forall. intros m Hm. unfold cl_pk.
-    destruct (o_st m) eqn:Est; try constructor.
-    - apply (msg_hc c s k m I HR (HinC m Hm)). left. unfold isPub. rewrite Est. reflexivity.
-    - constructor.
-    - destruct (o_qos m =? 2); repeat constructor. }
-  rewrite (hand_all_evs _ _ _ _ Hi HH), (hand_all_fst _ _ _ _ Hi).
-  destruct (hand_fold (pers c) (can_write s) (conn s) H k (r_ok _ _ _ HR) HndC Hhc) as ((Ok1 & L1 & R1 & B1) & A1 & A2 & A3).
-  set (k' := fold_left (k02_ev (pers c)) (flat_map (ev1 (can_write s) (conn s)) H) k) in *.
-  unfold H in A1, A2, A3. rewrite pubtags_cl in A1, A2, A3. fold H in A1, A2, A3.
-  (* the tags of the messages whose PUBLISH is handed over are theirs alone *)
-  assert (Hf1 : forall x, In x (out s) -> zin (o_tag x) (tags (filter isPub C)) = true -> In x C /\ isPub x = true).
-  { intros x Hx Hz. apply zin_tags in Hz as (y & Hy & Et). apply filter_In in Hy as [Hy Hp].
-    assert (y = x) by (eapply tag_inj; [exact Hnd|apply HinC; exact Hy|exact Hx|exact Et]). subst. tauto. }
-  assert (Hf2 : forall x, In x C -> isPub x = true -> zin (o_tag x) (tags (filter isPub C)) = true).
-  { intros x Hx Hp. apply zin_tags. exists x. split; [apply filter_In; tauto | reflexivity]. }
-  (* the relation for the new state, whatever the final [ok] *)
-  assert (Hrel : forall okk, okk = true ->
-            R c (with_q (with_out (connack_s1 s) (map cl1 C ++ Q) (inflight s)) (if can_write s then [] else outq s ++ H))
-              (mkK02 (k2_live k') (k2_h1 k') (k2_h2 k') (k2_sent k') (k2_rec k') (k2_blk k') okk)).
-  { intros okk ->. constructor; cbn [k2_ok k2_live k2_h1 k2_h2 k2_sent k2_rec k2_blk out ntag sock cack first outq blocked
-                                          with_q with_out connack_s1].
-    - reflexivity.
-    - rewrite L1, (r_live _ _ _ HR), Eo, !map_app, map_map. f_equal. apply map_ext. intros a. symmetry. apply lm_cl1.
-    - intros m' Hin. rewrite A1. apply in_app_or in Hin as [Hin|Hin].
-      + apply in_map_iff in Hin as (x & <- & Hx). rewrite cl1_tag. destruct (isPub x) eqn:Ep.
-        * rewrite (Hf2 x Hx Ep), orb_true_r. symmetry. apply snt_cl1_pub. exact Ep.
-        * rewrite (snt_cl1_other _ Ep), <- (r_h1 _ _ _ HR x (HinC x Hx)).
-          destruct (zin (o_tag x) (tags (filter isPub C))) eqn:Ez; [|apply orb_false_r].
-          destruct (Hf1 x (HinC x Hx) Ez). congruence.
-      + rewrite <- (r_h1 _ _ _ HR m' (HinQ m' Hin)).
-        destruct (zin (o_tag m') (tags (filter isPub C))) eqn:Ez; [|apply orb_false_r].
-        destruct (Hf1 m' (HinQ m' Hin) Ez) as [_ Hp].
-        pose proof (queued_npub m' (proj1 (Forall_forall _ _) HQ m' Hin)). congruence.
-    - intros t Ht. rewrite A1 in Ht. apply orb_true_iff in Ht as [Ht|Ht].
-      + exact (r_h1b _ _ _ HR _ Ht).
-      + apply zin_tags in Ht as (y & Hy & <-). apply filter_In in Hy as [Hy _].
-        apply (inv_tag_lt _ _ _ I (HinC y Hy)).
-    - intros t Ht. rewrite A3 in Ht. apply orb_true_iff in Ht as [Ht|Ht].
-      + exact (r_sh _ _ _ HR t Ht).
-      + apply andb_true_iff in Ht as [_ Ht]. apply zin_tags in Ht as (y & Hy & <-). apply filter_In in Hy as [Hy _].
-        apply (inv_tag_lt _ _ _ I (HinC y Hy)).
-    - intros m' Hin Hst Hz. apply in_app_or in Hin as [Hin|Hin].
-      + exfalso. apply in_map_iff in Hin as (x & <- & Hx).
-        pose proof (cl1_wait x (inv_qos_ok _ _ _ I (HinC x Hx)) (proj1 (Forall_forall _ _) HC x Hx)) as Hw.
-        destruct Hst as [Hst|Hst]; revert Hw Hst; unfold is_wait, isPub, is_queued; destruct (o_st (cl1 x)); discriminate.
-      + rewrite A3 in Hz. apply orb_true_iff in Hz as [Hz|Hz].
-        * apply (r_pend _ _ _ HR m' (HinQ m' Hin)); [|exact Hz]. right. exact (proj1 (Forall_forall _ _) HQ m' Hin).
-        * apply andb_true_iff in Hz as [_ Hz]. destruct (Hf1 m' (HinQ m' Hin) Hz) as [_ Hp].
-          pose proof (queued_npub m' (proj1 (Forall_forall _ _) HQ m' Hin)). congruence.
-    - intros Hc t Ht. rewrite R1 in Ht. destruct (r_rec _ _ _ HR Hc t Ht) as (m & Hin & Et & Hq & Hrc & _).
-      rewrite Eo in Hin. apply in_app_or in Hin as [Hin|Hin].
-      + exists (cl1 m). rewrite cl1_tag, cl1_qos.
-        split; [apply in_or_app; left; apply in_map; exact Hin|].
-        repeat split; try assumption; [apply rec_cl1; exact Hrc | discriminate].
-      + exfalso. pose proof (rec_nq m Hrc). pose proof (proj1 (Forall_forall _ _) HQ m Hin). congruence.
-    - intros t Ht. rewrite R1 in Ht. pose proof (r_recl _ _ _ HR t Ht) as H0. rewrite Eo in H0.
-      rewrite tags_cl1. exact H0.
-    - reflexivity.
-    - discriminate.
-    - destruct (can_write s) eqn:Ec; [constructor|]. apply Forall_app. split.
-      + apply Forall_forall. intros y Hy.
-        pose proof (proj1 (Forall_forall _ _) (r_pk _ _ _ HR) y Hy) as Hpk. unfold pk_inv in *.
-        destruct (q_pkt y) as [|mi qs d t| | | |] eqn:Ey; try exact Logic.I.
-        destruct Hpk as (P1 & P2 & P3). split; [|split].
-        * intros Hz. rewrite A3 in Hz. cbn [andb] in Hz. rewrite orb_false_r in Hz. exact (P1 Hz).
-        * intros Hd. rewrite A2, (P2 Hd). reflexivity.
-        * intros E0. destruct (P3 E0) as (A & B & C0). split; [exact A|]. split; [|exact C0].
-          cbn [out with_out with_q]. intros Hin. apply B. rewrite tags_cl1, <- Eo in Hin. exact Hin.
-      + apply Forall_flat_map. apply Forall_forall. intros m Hm. unfold cl_pk.
-        destruct (o_st m) eqn:Est; try constructor.
-        * unfold pk_inv, pub_pkt. cbn [q_pkt].
-          assert (Hp : isPub m = true) by (unfold isPub; rewrite Est; reflexivity).
-          split; [|split].
-          -- intros Hz. rewrite A3 in Hz. cbn [andb] in Hz. rewrite orb_false_r in Hz.
-             apply (r_pend _ _ _ HR m (HinC m Hm)); [left; exact Hp | exact Hz].
-          -- intros Hd. rewrite A2, (Hf2 m Hm Hp), (r_h1 _ _ _ HR m (HinC m Hm)), (snt_pub m Hp), Hd. apply orb_true_r.
-          -- intros E0. pose proof (qos_pos m (inv_qos_ok _ _ _ I (HinC m Hm))). lia.
-        * constructor.
-        * destruct (o_qos m =? 2); repeat constructor.
-    - destruct (can_write s) eqn:Ec; [constructor|]. rewrite pubtags_app.
-      apply NoDup_app_intro; [exact (r_nd _ _ _ HR) | exact HndC|].
-      intros t Ht1 Ht2. unfold H in Ht2. rewrite pubtags_cl in Ht2.
-      unfold tags in Ht2. apply in_map_iff in Ht2 as (m & <- & Hm). apply filter_In in Hm as [Hm Hp].
-      unfold pubtags in Ht1. apply in_flat_map in Ht1 as (y & Hy & Ht1). unfold pubtag in Ht1.
-      destruct (q_pkt y) as [|mi qs d t| | | |] eqn:Ey; try (destruct Ht1; fail). destruct Ht1 as [Et|[]]. subst t.
-      destruct (outq_pub c s k y mi qs d (o_tag m) I HR Hy Ey) as (_ & _ & Hw).
-      destruct (Z.eq_dec qs 0) as [E0|E0].
-      + pose proof (proj1 (Forall_forall _ _) (r_pk _ _ _ HR) y Hy) as Hpk. unfold pk_inv in Hpk. rewrite Ey in Hpk.
-        destruct Hpk as (_ & _ & P3). destruct (P3 E0) as (_ & B & _). apply B. unfold tags. apply in_map. exact (HinC m Hm).
-      + destruct (Hw E0) as (w & Hwi & Et & _ & Hst & _).
-        assert (w = m) by (eapply tag_inj; [exact Hnd | exact Hwi | exact (HinC m Hm) | exact Et]). subst w.
-        revert Hp Hst. unfold isPub, wait_of. destruct (o_st m); try discriminate. destruct (qs =? 1); discriminate.
-    - intros _. rewrite B1. exact (r_blk _ _ _ HR Hs). }
-  unfold k02_op. cbn [existsb is_connack0 fold_left k02_ev]. change (0 =? 0) with true. cbn [orb]. rewrite andb_true_r.
-  fold k'. destruct (pers c) eqn:Ep.
-  - apply Hrel. rewrite Ok1. cbn [andb]. apply forallb_forall. intros t Ht. apply zin_In in Ht.
-    destruct (r_rec _ _ _ HR (pers_true _ Ep) t Ht) as (m & Hin & Et & Hq & Hrc & Hrs).
-    assert (HmC : In m C).
-    { rewrite Eo in Hin. apply in_app_or in Hin as [Hin|Hin]; [exact Hin|].
-      exfalso. pose proof (rec_nq m Hrc). pose proof (proj1 (Forall_forall _ _) HQ m Hin). congruence. }
-    cbn [pubrel_tags flat_map handed_sel tx_sel app].
-    fold (pubrel_tags handed_sel (flat_map (ev1 (can_write s) (conn s)) H)).
-    fold (pubrel_tags tx_sel (flat_map (ev1 (can_write s) (conn s)) H)).
-    rewrite <- Et. unfold H.
-    rewrite (pubrel_in (can_write s) (conn s) handed_sel (or_introl eq_refl) C m HmC (Hrs Hs Hck) Hq). cbn [andb].
-    destruct (can_write s) eqn:Ec.
-    + rewrite (pubrel_in true (conn s) tx_sel (or_intror (conj eq_refl eq_refl)) C m HmC (Hrs Hs Hck) Hq). apply orb_true_r.
-    + rewrite B1, (r_blk _ _ _ HR Hs). unfold can_write in Ec. rewrite Hs in Ec. cbn in Ec. destruct (blocked s); [reflexivity | discriminate].
-  - destruct k' as [a1 a2 a3 a4 a5 a6 a7] eqn:Ek. cbn [k2_ok] in Ok1. subst a7.
-    apply (Hrel true eq_refl).
-Qed.
-
-(* ---------------------------------------------------------------- final acknowledgement (PUBACK / PUBCOMP) *)
-Lemma noq0_rel_pk m : qos_okb m = true -> noq0 (rel_pk m).
-Proof. intros H. pose proof (qos_pos m H). unfold noq0, rel_pk, pub_pkt. cbn [q_pkt]. lia. Qed.
-
-Lemma step_final c s k m ip : cfg_ok c = true -> Inv c s -> sock s = true -> cack s = true ->
-  In m (out s) -> is_wait m = true -> quiet (Inp ip) = true -> R c s k ->
-  R c (fst (do_on_publish c s m)) (k02_op (pers c) k (Inp ip :: snd (do_on_publish c s m))).
-Proof.
-  intros Hcfg I Hs Hck Hin Hw Hip HR. pose proof (inv_qidle _ _ I) as Hi.
-  destruct (on_publish_char c Hcfg s m (inv_m _ _ I) Hs Hck Hin Hw)
-    as (l1 & l2 & Q & j & n & So & Se & SQ & _ & _ & _ & _ & E).
-  rewrite E. cbn [fst snd]. clear E.
-  set (L := firstn j Q). set (B := skipn j Q). set (H := map rel_pk L).
-  assert (Eo : out s = l1 ++ m :: l2 ++ L ++ B).
-  { rewrite So, <- app_assoc. cbn [app]. unfold L, B. rewrite firstn_skipn. reflexivity. }
-  assert (HL : Forall (fun x => is_queued x = true) L) by (apply Forall_firstn; exact SQ).
-  assert (HB : Forall (fun x => is_queued x = true) B) by (apply Forall_skipn; exact SQ).
-  pose proof (inv_nodup_tags _ _ I) as Hnd.
-  (* positions *)
-  assert (Hi1 : forall x, In x l1 -> In x (out s)) by (intros; rewrite Eo; apply in_or_app; left; assumption).
-  assert (Hi2 : forall x, In x l2 -> In x (out s)).
-  { intros; rewrite Eo; apply in_or_app; right; right; apply in_or_app; left; assumption. }
-  assert (HiL : forall x, In x L -> In x (out s)).
-  { intros; rewrite Eo; apply in_or_app; right; right; apply in_or_app; right; apply in_or_app; left; assumption. }
-  assert (HiB : forall x, In x B -> In x (out s)).
-  { intros; rewrite Eo; apply in_or_app; right; right; apply in_or_app; right; apply in_or_app; right; assumption. }
-  pose proof Hnd as Hnd0. rewrite Eo, tags_app in Hnd0.
-  pose proof (NoDup_app_r _ _ Hnd0) as Hnd1. cbn [tags map] in Hnd1. fold (tags (l2 ++ L ++ B)) in Hnd1.
-  inversion Hnd1 as [|? ? Hm2 Hnd2]; subst. rewrite tags_app in Hnd2.
-  pose proof (NoDup_app_r _ _ Hnd2) as Hnd3. rewrite tags_app in Hnd3.
-  pose proof (NoDup_app_l _ _ Hnd3) as HndL.
-  assert (HLtag : forall x y, In x (out s) -> In y L -> o_tag x = o_tag y -> In x L).
-  { intros x y Hx Hy Et. assert (x = y) by (eapply tag_inj; [exact Hnd|exact Hx|apply HiL; exact Hy|exact Et]).
-    subst. exact Hy. }
-  assert (D1 : forall x, In x l1 -> In x L -> False).
-  { intros x H1 H2. apply (NoDup_app_disj _ _ (o_tag x) Hnd0); [apply (in_map o_tag); exact H1|].
-    cbn [tags map]. right. unfold tags. rewrite !map_app. apply in_or_app. right. apply in_or_app. left.
-    apply (in_map o_tag). exact H2. }
-  assert (D2 : forall x, In x l2 -> In x L -> False).
-  { intros x H1 H2. apply (NoDup_app_disj _ _ (o_tag x) Hnd2); [apply (in_map o_tag); exact H1|].
-    rewrite tags_app. apply in_or_app. left. apply (in_map o_tag). exact H2. }
-  assert (D3 : forall x, In x B -> In x L -> False).
-  { intros x H1 H2. apply (NoDup_app_disj _ _ (o_tag x) Hnd3); apply (in_map o_tag); assumption. }
-  assert (HnL : forall x, In x (out s) -> ~ In x L -> zin (o_tag x) (tags L) = false).
-  { intros x Hx Hn. destruct (zin (o_tag x) (tags L)) eqn:Ez; [|reflexivity]. exfalso.
-    apply zin_tags in Ez as (y & Hy & Et). apply Hn. apply (HLtag x y Hx Hy). symmetry. exact Et. }
-  assert (HH : Forall noq0 H).
-  { apply Forall_map. apply Forall_forall. intros x Hx. apply noq0_rel_pk. exact (inv_qos_ok _ _ _ I (HiL x Hx)). }
-  rewrite (hand_all_evs _ _ _ _ Hi HH), (hand_all_fst _ _ _ _ Hi).
-  assert (Hnc : existsb is_connack0 (Inp ip :: CbPublish (o_mid m) (o_tag m) :: Published (o_tag m)
-                                       :: flat_map (ev1 (can_write s) (conn s)) H) = false).
-  { cbn [existsb]. rewrite noconn_ev1. destruct ip; try reflexivity; discriminate. }
-  rewrite k02_op_plain by exact Hnc. cbn [fold_left]. rewrite (quiet_ev _ _ _ Hip). cbn [k02_ev].
-  set (k1 := mkK02 (lrem_tag (o_tag m) (k2_live k)) (k2_h1 k) (k2_h2 k) (k2_sent k) (zrem (o_tag m) (k2_rec k)) (k2_blk k) (k2_ok k)).
-  assert (Hhc : Forall (hc (pers c) k1) H).
-  { apply Forall_map. apply Forall_forall. intros y Hy.
-    pose proof (msg_hc c s k y I HR (HiL y Hy) (or_intror (proj1 (Forall_forall _ _) HL y Hy))) as Hc.
-    unfold hc, rel_pk, pub_pkt in *. cbn [q_pkt] in *. destruct Hc as (C1 & C2 & C3 & C4).
-    unfold k1. cbn [k2_rec k2_h1 k2_sent]. split; [|split; [exact C2|split; [exact C3|exact C4]]].
-    intros Ep. rewrite zin_zrem, (C1 Ep). apply andb_false_r. }
-  assert (HndH : NoDup (pubtags H)) by (unfold H; rewrite pubtags_rel; exact HndL).
-  destruct (hand_fold (pers c) (can_write s) (conn s) H k1 (r_ok _ _ _ HR) HndH Hhc) as ((Ok1 & L1 & R1 & B1) & A1 & A2 & A3).
-  set (k' := fold_left (k02_ev (pers c)) (flat_map (ev1 (can_write s) (conn s)) H) k1) in *.
-  unfold H in A1, A2, A3. rewrite pubtags_rel in A1, A2, A3. fold H in A1, A2, A3.
-  unfold k1 in L1, R1, B1, A1, A2, A3. cbn [k2_live k2_rec k2_blk k2_h1 k2_h2 k2_sent] in L1, R1, B1, A1, A2, A3.
-  set (o' := (l1 ++ l2) ++ map rel1 L ++ B).
-  assert (Ho' : forall x, In x o' -> In x l1 \/ In x l2 \/ (exists y, In y L /\ x = rel1 y) \/ In x B).
-  { intros x Hx. unfold o' in Hx. apply in_app_or in Hx as [Hx|Hx].
-    - apply in_app_or in Hx as [Hx|Hx]; [left | right; left]; exact Hx.
-    - apply in_app_or in Hx as [Hx|Hx]; [|right; right; right; exact Hx].
-      apply in_map_iff in Hx as (y & <- & Hy). right. right. left. exists y. split; [exact Hy | reflexivity]. }
-  assert (Htags' : forall t, In t (tags o') -> In t (tags (out s)) /\ t <> o_tag m).
-  { intros t Ht. unfold tags in Ht. apply in_map_iff in Ht as (x & <- & Hx).
-    destruct (Ho' x Hx) as [Hx'|[Hx'|[(y & Hy & ->)|Hx']]].
-    - split; [apply in_map; exact (Hi1 x Hx')|]. intros Et. apply (NoDup_app_disj _ _ (o_tag x) Hnd0); [apply (in_map o_tag); exact Hx'|].
-      cbn [tags map]. left. symmetry. exact Et.
-    - split; [apply in_map; exact (Hi2 x Hx')|]. intros Et. apply Hm2. rewrite <- Et. unfold tags. rewrite map_app. apply in_or_app. left. apply in_map. exact Hx'.
-    - change (o_tag (rel1 y)) with (o_tag y). split; [apply in_map; exact (HiL y Hy)|]. intros Et. apply Hm2. rewrite <- Et.
-      unfold tags. rewrite !map_app. apply in_or_app. right. apply in_or_app. left. apply in_map. exact Hy.
-    - split; [apply in_map; exact (HiB x Hx')|]. intros Et. apply Hm2. rewrite <- Et.
-      unfold tags. rewrite !map_app. apply in_or_app. right. apply in_or_app. right. apply in_map. exact Hx'. }
-  constructor; cbn [with_out with_q out ntag sock cack first outq blocked].
-  - exact Ok1.
-  - rewrite L1, (r_live _ _ _ HR), Eo, (lrem_tag_split l1 m (l2 ++ L ++ B)) by (rewrite <- Eo; exact Hnd).
-    fold o'. unfold o'. rewrite !map_app, map_map. rewrite <- !app_assoc. reflexivity.
-  - fold o'. intros x Hx. rewrite A1. destruct (Ho' x Hx) as [Hx'|[Hx'|[(y & Hy & ->)|Hx']]].
-    + rewrite (HnL x (Hi1 x Hx') (D1 x Hx')), orb_false_r. apply (r_h1 _ _ _ HR). apply Hi1. exact Hx'.
-    + rewrite (HnL x (Hi2 x Hx') (D2 x Hx')), orb_false_r. apply (r_h1 _ _ _ HR). apply Hi2. exact Hx'.
-    + rewrite snt_rel1. change (o_tag (rel1 y)) with (o_tag y).
-      replace (zin (o_tag y) (tags L)) with true; [apply orb_true_r|].
-      symmetry. apply zin_tags. exists y. split; [exact Hy|reflexivity].
-    + rewrite (HnL x (HiB x Hx') (D3 x Hx')), orb_false_r. apply (r_h1 _ _ _ HR). apply HiB. exact Hx'.
-  - intros t Ht. rewrite A1 in Ht. apply orb_true_iff in Ht as [Ht|Ht].
-    + exact (r_h1b _ _ _ HR _ Ht).
-    + apply zin_tags in Ht as (y & Hy & <-). apply (inv_tag_lt _ _ _ I (HiL y Hy)).
-  - intros t Ht. rewrite A3 in Ht. apply orb_true_iff in Ht as [Ht|Ht].
-    + exact (r_sh _ _ _ HR t Ht).
-    + apply andb_true_iff in Ht as [_ Ht]. apply zin_tags in Ht as (y & Hy & <-). apply (inv_tag_lt _ _ _ I (HiL y Hy)).
-  - fold o'. intros x Hx Hst Hz. destruct (Ho' x Hx) as [Hx'|[Hx'|[(y & Hy & ->)|Hx']]].
-    + exfalso. pose proof (proj1 (Forall_forall _ _) Se x ltac:(apply in_or_app; left; exact Hx')) as Hwx. cbn beta in Hwx.
-      destruct Hst as [Hst|Hst]; revert Hwx Hst; unfold is_wait, isPub, is_queued; destruct (o_st x); discriminate.
-    + exfalso. pose proof (proj1 (Forall_forall _ _) Se x ltac:(apply in_or_app; right; exact Hx')) as Hwx. cbn beta in Hwx.
-      destruct Hst as [Hst|Hst]; revert Hwx Hst; unfold is_wait, isPub, is_queued; destruct (o_st x); discriminate.
-    + exfalso. pose proof (rel1_wait y) as Hwx.
-      destruct Hst as [Hst|Hst]; revert Hwx Hst; unfold is_wait, isPub, is_queued; destruct (o_st (rel1 y)); discriminate.
-    + rewrite A3 in Hz. apply orb_true_iff in Hz as [Hz|Hz].
-      * apply (r_pend _ _ _ HR x (HiB x Hx')); [|exact Hz]. right. exact (proj1 (Forall_forall _ _) HB x Hx').
-      * apply andb_true_iff in Hz as [_ Hz]. rewrite (HnL x (HiB x Hx') (D3 x Hx')) in Hz. discriminate.
-  - fold o'. intros Hc t Ht. rewrite R1, zin_zrem in Ht. apply andb_true_iff in Ht as [Hne Ht].
-    destruct (r_rec _ _ _ HR Hc t Ht) as (x & Hx & Et & Hq & Hrc & Hrs).
-    exists x. split; [|repeat split; assumption].
-    rewrite Eo in Hx. unfold o'. apply in_app_or in Hx as [Hx|[Hx|Hx]].
-    * apply in_or_app. left. apply in_or_app. left. exact Hx.
-    * exfalso. subst x. lia.
-    * apply in_app_or in Hx as [Hx|Hx]; [apply in_or_app; left; apply in_or_app; right; exact Hx|].
-      apply in_or_app. right. apply in_app_or in Hx as [Hx|Hx]; [|apply in_or_app; right; exact Hx].
-      exfalso. pose proof (queued_nrec x (proj1 (Forall_forall _ _) HL x Hx)). congruence.
-  - fold o'. intros t Ht. rewrite R1, zin_zrem in Ht. apply andb_true_iff in Ht as [Hne Ht].
-    pose proof (r_recl _ _ _ HR t Ht) as Hin'. rewrite Eo in Hin'. unfold o'.
-    rewrite !tags_app in *. cbn [tags map] in Hin'. apply in_app_or in Hin' as [Hx|[Hx|Hx]].
-    * apply in_or_app. left. apply in_or_app. left. exact Hx.
-    * exfalso. lia.
-    * fold (tags (l2 ++ L ++ B)) in Hx. rewrite !tags_app in Hx. apply in_app_or in Hx as [Hx|Hx]; [apply in_or_app; left; apply in_or_app; right; exact Hx|].
-      apply in_or_app. right. apply in_app_or in Hx as [Hx|Hx]; apply in_or_app; [left | right; exact Hx].
-      unfold tags. rewrite map_map. exact Hx.
-  - exact (r_first _ _ _ HR).
-  - intros Hc Hf. rewrite R1, (r_clean _ _ _ HR Hc Hf). reflexivity.
-  - fold o'. destruct (can_write s) eqn:Ec; [constructor|]. apply Forall_app. split.
-    + apply Forall_forall. intros y Hy.
-      pose proof (proj1 (Forall_forall _ _) (r_pk _ _ _ HR) y Hy) as Hpk. unfold pk_inv in *.
-      destruct (q_pkt y) as [|mi qs d t| | | |] eqn:Ey; try exact Logic.I.
-      destruct Hpk as (P1 & P2 & P3). split; [|split].
-      * intros Hz. rewrite A3 in Hz. cbn [andb] in Hz. rewrite orb_false_r in Hz. exact (P1 Hz).
-      * intros Hd. rewrite A2, (P2 Hd). reflexivity.
-      * intros E0. destruct (P3 E0) as (A & B0 & C0). split; [exact A|]. split; [|exact C0].
-        cbn [out with_out with_q]. intros Hin'. apply B0. exact (proj1 (Htags' t Hin')).
-    + apply Forall_map. apply Forall_forall. intros y Hy. unfold pk_inv, rel_pk, pub_pkt. cbn [q_pkt].
-      pose proof (proj1 (Forall_forall _ _) HL y Hy) as Hqy. cbn beta in Hqy.
-      split; [|split].
-      * intros Hz. rewrite A3 in Hz. cbn [andb] in Hz. rewrite orb_false_r in Hz.
-        apply (r_pend _ _ _ HR y (HiL y Hy)); [right; exact Hqy | exact Hz].
-      * intros Hd. rewrite A2. replace (zin (o_tag y) (tags L)) with true by (symmetry; apply zin_tags; exists y; split; [exact Hy|reflexivity]).
-        rewrite (r_h1 _ _ _ HR y (HiL y Hy)), (snt_queued y Hqy), Hd. apply orb_true_r.
-      * intros E0. pose proof (qos_pos y (inv_qos_ok _ _ _ I (HiL y Hy))). lia.
-  - destruct (can_write s) eqn:Ec; [constructor|]. rewrite pubtags_app.
-    apply NoDup_app_intro; [exact (r_nd _ _ _ HR) | exact HndH|].
-    intros t Ht1 Ht2. unfold H in Ht2. rewrite pubtags_rel in Ht2.
-    unfold tags in Ht2. apply in_map_iff in Ht2 as (y & <- & Hy).
-    pose proof (proj1 (Forall_forall _ _) HL y Hy) as Hqy. cbn beta in Hqy.
-    unfold pubtags in Ht1. apply in_flat_map in Ht1 as (z & Hz & Ht1). unfold pubtag in Ht1.
-    destruct (q_pkt z) as [|mi qs d t| | | |] eqn:Ez; try (destruct Ht1; fail). destruct Ht1 as [Et|[]]. subst t.
-    destruct (outq_pub c s k z mi qs d (o_tag y) I HR Hz Ez) as (_ & _ & Hwz).
-    destruct (Z.eq_dec qs 0) as [E0|E0].
-    + pose proof (proj1 (Forall_forall _ _) (r_pk _ _ _ HR) z Hz) as Hpk. unfold pk_inv in Hpk. rewrite Ez in Hpk.
-      destruct Hpk as (_ & _ & P3). destruct (P3 E0) as (_ & B0 & _). apply B0. unfold tags. apply in_map. exact (HiL y Hy).
-    + destruct (Hwz E0) as (w & Hwi & Et & _ & Hst & _).
-      assert (w = y) by (eapply tag_inj; [exact Hnd | exact Hwi | exact (HiL y Hy) | exact Et]). subst w.
-      revert Hqy Hst. unfold is_queued, wait_of. destruct (o_st y); try discriminate. destruct (qs =? 1); discriminate.
-  - intros _. rewrite B1. exact (r_blk _ _ _ HR Hs).
-Qed.
-
-(* ---------------------------------------------------------------- PUBREC *)
-Lemma step_pubrec c s k mid r : Inv c s -> sock s = true ->
-  conf_op c s (ORx (IPubrec mid) r) = true -> R c s k ->
-  R c (fst (do_rx c s (IPubrec mid) r)) (k02_op (pers c) k (snd (do_rx c s (IPubrec mid) r))).
-Proof.
-  intros I Hs Hconf HR. cbn [conf_op] in Hconf. rewrite Hs in Hconf. cbn [negb] in Hconf. pose proof (inv_qidle _ _ I) as Hi.
-  unfold do_rx. rewrite Hs. cbn [negb].
-  destruct (find_mid mid (out s)) as [m|] eqn:Ef; cbn [fst snd].
-  - apply andb_true_iff in Hconf as [Hck Hconf]. apply andb_true_iff in Hconf as [Hq Hst].
-    assert (Hw : is_wait m = true) by (unfold is_wait; destruct (o_st m); try reflexivity; discriminate).
-    assert (Hq2 : o_qos m = 2) by lia.
-    destruct (find_mid_split _ _ _ Ef) as (l1 & l2 & Eo & Hn1 & Hmid).
-    set (s1 := with_out s (update_mid mid (fun m0 => set_st m0 MsWaitPubcomp) (out s)) (inflight s)).
-    set (x := mkQ (PPubrel mid (o_tag m)) false).
-    assert (HH : Forall noq0 [x]) by (repeat constructor).
-    rewrite (send_hand_all s1 x). cbn [fst snd].
-    rewrite (hand_all_evs _ _ _ _ Hi HH), (hand_all_fst _ _ _ _ Hi).
-    rewrite k02_op_plain by (cbn [existsb is_connack0 orb]; apply noconn_ev1).
-    cbn [fold_left k02_ev].
-    rewrite (r_live _ _ _ HR), lfind_mid_map, Ef. cbn [option_map]. change (l_tag (lm m)) with (o_tag m).
-    rewrite <- (r_live _ _ _ HR).
-    assert (Eq : forall k0, fold_left (k02_ev (pers c)) (flat_map (ev1 (can_write s1) (conn s1)) [x]) k0 = k0).
-    { intros k0. cbn [flat_map ev1 x q_pkt app]. destruct (can_write s1); reflexivity. }
-    rewrite Eq. clear Eq.
-    unfold s1. cbn [out with_out with_q ntag sock cack first outq blocked].
-    rewrite Eo, (update_mid_split _ _ l1 m l2 Hn1 Hmid).
-    set (m' := set_st m MsWaitPubcomp).
-    assert (Hin : In m (out s)) by (rewrite Eo; apply in_or_app; right; left; reflexivity).
-    assert (Hsub : forall y, In y (l1 ++ m' :: l2) -> y = m' \/ In y (out s)).
-    { intros y Hy. rewrite Eo. apply in_app_or in Hy as [Hy|[Hy|Hy]].
-      - right. apply in_or_app. left. exact Hy.
-      - left. symmetry. exact Hy.
-      - right. apply in_or_app. right. right. exact Hy. }
-    assert (Hsup : forall y, In y (out s) -> y = m \/ In y (l1 ++ m' :: l2)).
-    { intros y Hy. rewrite Eo in Hy. apply in_app_or in Hy as [Hy|[Hy|Hy]].
-      - right. apply in_or_app. left. exact Hy.
-      - left. symmetry. exact Hy.
-      - right. apply in_or_app. right. right. exact Hy. }
-    assert (Htg : tags (l1 ++ m' :: l2) = tags (out s)) by (rewrite Eo; unfold tags; rewrite !map_app; reflexivity).
-    constructor; cbn [with_out with_q out ntag sock cack first outq blocked k2_ok k2_live k2_h1 k2_h2 k2_sent k2_rec k2_blk].
-    + exact (r_ok _ _ _ HR).
-    + rewrite (r_live _ _ _ HR), Eo, !map_app. reflexivity.
-    + intros y Hy. destruct (Hsub y Hy) as [->|Hy'].
-      * change (o_tag m') with (o_tag m). rewrite (r_h1 _ _ _ HR m Hin). rewrite (snt_wait m Hw). reflexivity.
-      * apply (r_h1 _ _ _ HR). exact Hy'.
-    + exact (r_h1b _ _ _ HR).
-    + exact (r_sh _ _ _ HR).
-    + intros y Hy Hsty Hz. destruct (Hsub y Hy) as [->|Hy'].
-      * exfalso. destruct Hsty as [Hsty|Hsty]; discriminate.
-      * exact (r_pend _ _ _ HR y Hy' Hsty Hz).
-    + intros Hc t Ht. rewrite zin_zadd in Ht.
-      assert (Hm' : In m' (l1 ++ m' :: l2)) by (apply in_or_app; right; left; reflexivity).
-      destruct (t =? o_tag m) eqn:Et.
-      * exists m'. split; [exact Hm'|]. repeat split; try assumption; [cbn; lia | congruence].
-      * cbn [orb] in Ht. destruct (r_rec _ _ _ HR Hc t Ht) as (y & Hy & Ety & Hqy & Hrc & Hrs).
-        destruct (Hsup y Hy) as [->|Hy']; [lia|]. exists y. repeat split; assumption.
-    + intros t Ht. rewrite Htg. rewrite zin_zadd in Ht. apply orb_true_iff in Ht as [Ht|Ht].
-      * assert (t = o_tag m) by lia. subst t. unfold tags. apply in_map. exact Hin.
-      * exact (r_recl _ _ _ HR t Ht).
-    + exact (r_first _ _ _ HR).
-    + intros Hc Hf. rewrite (r_first _ _ _ HR Hck) in Hf. discriminate.
-    + assert (Hold : Forall (pk_inv (with_q (with_out s (l1 ++ m' :: l2) (inflight s)) (if can_write s then [] else outq s ++ [x]))
-                         (mkK02 (k2_live k) (k2_h1 k) (k2_h2 k) (k2_sent k) (zadd (o_tag m) (k2_rec k)) (k2_blk k) (k2_ok k))) (outq s)).
-      { eapply Forall_impl; [|exact (r_pk _ _ _ HR)]. intros y. unfold pk_inv. destruct (q_pkt y); try exact (fun a => a).
-        cbn [out with_out with_q ntag k2_sent k2_h2]. rewrite Htg. exact (fun a => a). }
-      change (can_write (with_out s (update_mid mid (fun m0 => set_st m0 MsWaitPubcomp) (out s)) (inflight s))) with (can_write s).
-      destruct (can_write s); [constructor|]. apply Forall_app. split; [exact Hold|]. repeat constructor.
-    + change (can_write (with_out s (update_mid mid (fun m0 => set_st m0 MsWaitPubcomp) (out s)) (inflight s))) with (can_write s).
-      destruct (can_write s); [constructor|]. rewrite pubtags_app. cbn. rewrite app_nil_r. exact (r_nd _ _ _ HR).
-    + exact (r_blk _ _ _ HR).
-  - rewrite k02_op_plain by reflexivity. cbn [fold_left k02_ev].
-    rewrite (r_live _ _ _ HR), lfind_mid_map, Ef. cbn [option_map]. exact HR.
-Qed.
-
-(* ---------------------------------------------------------------- the transport blocks / accepts again *)
-Lemma step_block c s k b : Inv c s -> R c s k ->
-  R c (fst (do_block s b)) (k02_op (pers c) k (snd (do_block s b))).
-Proof.
-  intros I HR. unfold do_block. destruct (sock s) eqn:Hs; [|cbn [fst snd]; rewrite quiet_op by reflexivity; exact HR].
-  destruct b; cbn [fst snd lw].
-  - rewrite k02_op_plain by reflexivity. cbn [fold_left k02_ev].
-    destruct HR as [H1 H2 H3 H4 H5 H6 H7 H8 H9 H10 H11 H12 H13].
-    constructor; cbn [k2_ok k2_live k2_h1 k2_h2 k2_sent k2_rec k2_blk out ntag sock cack first outq blocked with_blocked];
-      try assumption. intros _. reflexivity.
-  - rewrite k02_op_plain by (cbn [existsb is_connack0 orb]; apply noconn_flush). cbn [fold_left].
-    set (k0 := k02_ev (pers c) k (Blk false)).
-    assert (Hwc : Forall (wc (pers c) k0) (outq s)) by exact (outq_wc c s k I HR).
-    destruct (flush_fold02 (pers c) (conn s) (outq s) k0 (r_ok _ _ _ HR) (r_nd _ _ _ HR) Hwc)
-      as ((Ok1 & L1 & R1 & B1) & G1 & G2 & A3).
-    set (k' := fold_left (k02_ev (pers c)) (flush_evs (conn s) (outq s)) k0) in *.
-    unfold k0 in L1, R1, B1, G1, G2, A3. cbn [k02_ev k2_live k2_rec k2_blk k2_h1 k2_h2 k2_sent] in L1, R1, B1, G1, G2, A3.
-    pose proof (inv_nodup_tags _ _ I) as Hnd.
-    constructor; cbn [out ntag sock cack first outq blocked with_q with_blocked]; rewrite ?L1, ?R1, ?G1, ?G2.
-    + exact Ok1.
-    + exact (r_live _ _ _ HR).
-    + exact (r_h1 _ _ _ HR).
-    + exact (r_h1b _ _ _ HR).
-    + intros t Ht. rewrite A3 in Ht. apply orb_true_iff in Ht as [Ht|Ht]; [exact (r_sh _ _ _ HR t Ht)|].
-      apply zin_In in Ht. exact (outq_tags_lt c s k t I HR Ht).
-    + intros m Hin Hst Hz. rewrite A3 in Hz. apply orb_true_iff in Hz as [Hz|Hz]; [exact (r_pend _ _ _ HR m Hin Hst Hz)|].
-      exfalso. apply zin_In in Hz. unfold pubtags in Hz. apply in_flat_map in Hz as (y & Hy & Ht). unfold pubtag in Ht.
-      destruct (q_pkt y) as [|mi qs d t| | | |] eqn:Ey; try (destruct Ht; fail). destruct Ht as [Et|[]]. subst t.
-      destruct (outq_pub c s k y mi qs d (o_tag m) I HR Hy Ey) as (_ & _ & Hwy).
-      destruct (Z.eq_dec qs 0) as [E0|E0].
-      * pose proof (proj1 (Forall_forall _ _) (r_pk _ _ _ HR) y Hy) as Hpk. unfold pk_inv in Hpk. rewrite Ey in Hpk.
-        destruct Hpk as (_ & _ & P3). destruct (P3 E0) as (_ & B0 & _). apply B0. unfold tags. apply in_map. exact Hin.
-      * destruct (Hwy E0) as (w & Hwi & Et & _ & Hstw & _).
-        assert (w = m) by (eapply tag_inj; [exact Hnd | exact Hwi | exact Hin | exact Et]). subst w.
-        destruct Hst as [Hst|Hst]; revert Hst Hstw; unfold isPub, is_queued, wait_of; destruct (o_st m); try discriminate;
-          destruct (qs =? 1); discriminate.
-    + exact (r_rec _ _ _ HR).
-    + exact (r_recl _ _ _ HR).
-    + exact (r_first _ _ _ HR).
-    + exact (r_clean _ _ _ HR).
-    + constructor.
-    + constructor.
-    + intros _. exact B1.
-Qed.
-
-(* ---------------------------------------------------------------- one operation *)
-Lemma with_inm_R c s k i : R c s k -> R c (with_inm s i) k.
-Proof. intros HR. apply (R_ext c s); try reflexivity; try (cbn; lia). exact HR. Qed.
-
-Lemma step_R c s k o : cfg_ok c = true -> Inv c s -> conf_op c s o = true -> R c s k ->
-  R c (fst (step c s o)) (k02_op (pers c) k (snd (step c s o))).
-Proof.
-  intros Hcfg I Hconf HR. destruct o as [q|ok| |p r|mid q|b]; cbn [step].
-  - apply step_publish; assumption.
-  - apply step_reconnect; assumption.
-  - apply step_connlost. exact HR.
-  - destruct (sock s) eqn:Hs.
-    2:{ unfold do_rx. rewrite Hs. cbn [negb fst snd]. rewrite quiet_op by reflexivity. exact HR. }
-    assert (Hreply : forall s1 x pre, Inv c s1 -> R c s1 k -> is_reply x -> forallb quiet pre = true ->
-              R c (fst (let (s2, ev2) := send s1 x in (s2, pre ++ ev2)))
-                  (k02_op (pers c) k (snd (let (s2, ev2) := send s1 x in (s2, pre ++ ev2))))).
-    { intros s1 x pre I1 HR1 Hx Hpre. pose proof (R_send_reply c s1 k x pre I1 Hx Hpre HR1) as H.
-      destruct (send s1 x) as [s2 ev]. exact H. }
-    destruct p as [rc|mid|mid|mid|mid|q mid tag].
-    + (* CONNACK *)
-      cbn [conf_op] in Hconf. rewrite Hs in Hconf. cbn [negb] in Hconf.
-      destruct (rc =? 0) eqn:Erc.
-      * assert (rc = 0) by lia. subst rc. apply step_connack0; try assumption. destruct (cack s); [discriminate|reflexivity].
-      * unfold do_rx. rewrite Hs, Erc. cbn [negb fst snd].
-        rewrite k02_op_plain by (cbn [existsb is_connack0]; rewrite Erc; reflexivity).
-        cbn [fold_left k02_ev].
-        apply (R_down c s); try reflexivity; [cbn; discriminate | exact HR].
-    + (* PUBACK *)
-      unfold do_rx. rewrite Hs. cbn [negb]. cbn [conf_op] in Hconf. rewrite Hs in Hconf. cbn [negb] in Hconf.
-      destruct (find_mid mid (out s)) as [m|] eqn:Ef.
-      * apply andb_true_iff in Hconf as [Hck Hconf]. apply andb_true_iff in Hconf as [Hconf _].
-        apply andb_true_iff in Hconf as [Hq Hst].
-        pose proof (find_mid_In _ _ _ Ef) as [Hin Hmid].
-        assert (Hw : is_wait m = true) by (unfold is_wait; destruct (o_st m); try reflexivity; discriminate).
-        pose proof (step_final c s k m (IPuback mid) Hcfg I Hs Hck Hin Hw eq_refl HR) as H.
-        destruct (do_on_publish c s m) as [s' ev]. exact H.
-      * cbn [fst snd]. rewrite quiet_op by reflexivity. exact HR.
-    + apply step_pubrec; assumption.
-    + (* PUBCOMP *)
-      unfold do_rx. rewrite Hs. cbn [negb]. cbn [conf_op] in Hconf. rewrite Hs in Hconf. cbn [negb] in Hconf.
-      destruct (find_mid mid (out s)) as [m|] eqn:Ef.
-      * apply andb_true_iff in Hconf as [Hck Hconf]. apply andb_true_iff in Hconf as [Hconf _].
-        apply andb_true_iff in Hconf as [Hq Hst].
-        pose proof (find_mid_In _ _ _ Ef) as [Hin Hmid].
-        assert (Hw : is_wait m = true) by (unfold is_wait; destruct (o_st m); try reflexivity; discriminate).
-        pose proof (step_final c s k m (IPubcomp mid) Hcfg I Hs Hck Hin Hw eq_refl HR) as H.
-        destruct (do_on_publish c s m) as [s' ev]. exact H.
-      * cbn [fst snd]. rewrite quiet_op by reflexivity. exact HR.
-    + (* PUBREL *)
-      unfold do_rx, deliver. rewrite Hs. cbn [negb].
-      destruct (in_find mid (inm s)) as [tag|].
-      * destruct (r && negb (c_suppress c)); [|destruct (c_manual c)];
-          try solve [cbn [fst snd app]; rewrite quiet_op by reflexivity; apply with_inm_R; exact HR].
-        apply (Hreply _ _ [Inp (IPubrel mid); CbMessage mid 2 tag]);
-          [apply inv_with_inm; exact I | apply with_inm_R; exact HR | exact Logic.I | reflexivity].
-      * destruct (c_manual c); [cbn [fst snd]; rewrite quiet_op by reflexivity; exact HR|].
-        apply (Hreply _ _ [Inp (IPubrel mid)]); [exact I | exact HR | exact Logic.I | reflexivity].
-    + (* PUBLISH *)
-      unfold do_rx, deliver. rewrite Hs. cbn [negb].
-      destruct (q =? 0); [|destruct (q =? 1)].
-      * destruct (r && negb (c_suppress c)); cbn [fst snd]; rewrite quiet_op by reflexivity; exact HR.
-      * destruct (r && negb (c_suppress c)); [|destruct (c_manual c)];
-          try solve [cbn [fst snd app]; rewrite quiet_op by reflexivity; exact HR].
-        apply (Hreply _ _ [Inp (IPublish q mid tag); CbMessage mid 1 tag]); [exact I | exact HR | exact Logic.I | reflexivity].
-      * pose proof (Hreply s (mkQ (PPubrec mid) false) [Inp (IPublish q mid tag)] I HR Logic.I eq_refl) as H.
-        destruct (send s (mkQ (PPubrec mid) false)) as [s2 ev2]. cbn [fst snd] in *. apply with_inm_R. exact H.
-  - (* ack() *)
-    unfold do_ack. destruct (c_manual c); [|cbn [fst snd]; rewrite quiet_op by reflexivity; exact HR].
-    destruct (q =? 1); [exact (R_send_reply c s k (mkQ (PPuback mid) false) [] I Logic.I eq_refl HR)|].
-    destruct (q =? 2); [exact (R_send_reply c s k (mkQ (PPubcomp mid) false) [] I Logic.I eq_refl HR)|].
-    cbn [fst snd]. rewrite quiet_op by reflexivity. exact HR.
-  - apply step_block; assumption.
-Qed.
-
-(* ---------------------------------------------------------------- whole histories *)
-Lemma run_R c : cfg_ok c = true -> forall ops s k, Inv c s -> R c s k -> conforming_from c s ops = true ->
-  k2_ok (fold_left (k02_op (pers c)) (map snd (run_steps c s ops)) k) = true.
-Proof.
-  intros Hcfg. induction ops as [|o ops IH]; intros s k I HR Hc; cbn [run_steps map fold_left conforming_from] in *.
-  - exact (r_ok _ _ _ HR).
-  - apply andb_true_iff in Hc as [Hc1 Hc2].
-    pose proof (step_R c s k o Hcfg I Hc1 HR) as HR'. pose proof (inv_step c Hcfg s o I Hc1) as I'.
-    destruct (step c s o) as [s' ev]. cbn [fst snd map fold_left] in *.
-    apply (IH s'); assumption.
-Qed.
-
-Lemma R_init c : R c (init c) k02_init.
+(* C02 on the second-generation Session model.  Operation-by-operation preservation for the two-mode operations is in
+   LC02.v (against the strong form of the invariant, LInvS.v); lifted here to the model's runs for histories without
+   hard write failures (Calm.v). *)
+From PahoV Require Import Base.Prelude Codec.Mid Codec.MidProofs Session2.Model Session2.Check Session2.Statements
+  Session2.Bridge Session2.Calm Session2.LLemmas Session2.LInvS Session2.LC02.
+From PahoV Require Session2.Legacy.
+
+Lemma R_init c : LC02.R c (init c) k02_init.
 Proof.
   constructor; cbn; try reflexivity; try discriminate; try (intros m []); try constructor.
 Qed.
 
-Theorem c02_proved : C02_stmt.
+Theorem c02_calm_proved : C02_calm_stmt.
 Proof.
-  intros c ops Hcfg Hconf. unfold c02_ok, optrace.
-  apply (run_R c Hcfg ops (init c) k02_init (inv_init c) (R_init c) Hconf).
+  intros c ops Hcfg Hc Hn. unfold c02_ok, optrace.
+  destruct (lift_calm c (LInvS.Inv c) (LInvS.inv_step c Hcfg) k02 (k02_op (pers c)) (LC02.R c)
+              (fun s o k Hi Hcf HR => LC02.step_R c s k o Hcfg Hi Hcf HR) ops (init c) k02_init (LInvS.inv_init c) eq_refl Hn Hc (R_init c))
+    as (s' & H).
+  exact (r_ok _ _ _ H).
 Qed.
 
-Print Assumptions c02_proved.
+Print Assumptions c02_calm_proved.
